@@ -100,373 +100,1077 @@ theorem forward_str (hx : ExtOk ext) {S : Store} {st : St F} (hk : HeapOk S st.h
     obtain ⟨v, rfl⟩ := hx.2.1 f hf _ _ hc
     exact ⟨S, Grows.refl S, hk, hgl, rfl, fun t ht => by cases ht; exact .str _⟩
 
+/-- all arguments have a type the variadic predicate `p` accepts -/
+theorem rest_typed {S : Store} {tys : List Ty} {vs : List (Val F)} (hz : PZ tys S vs) (p : Ty → Bool)
+    (hpred : ∀ (i : Nat) ta, tys[i]? = some ta → p ta = true) : ∀ v ∈ vs, ∃ t, VT S v t ∧ p t = true := by
+  intro v hv
+  obtain ⟨i, hi⟩ := List.getElem?_of_mem hv
+  obtain ⟨hlen, hp⟩ := hz
+  have hlt : i < tys.length := by
+    rw [← hlen]
+    rcases Nat.lt_or_ge i vs.length with h | h
+    · exact h
+    · rw [List.getElem?_eq_none h] at hi; cases hi
+  have ht : tys[i]? = some tys[i] := List.getElem?_eq_getElem hlt
+  exact ⟨tys[i], hp i v _ hi ht, hpred i _ ht⟩
+
+theorem numArgs_typed {S : Store} : ∀ (vs : List (Val F)), (∀ v ∈ vs, ∃ t, VT S v t ∧ isNumT t = true) → ∃ ns, numArgs vs = some ns := by
+  intro vs
+  induction vs with
+  | nil => intro _; exact ⟨[], rfl⟩
+  | cons v rest ih =>
+    intro h
+    obtain ⟨t, hv, ht⟩ := h v List.mem_cons_self
+    have := isNumT_eq ht; subst this
+    obtain ⟨x, rfl⟩ := hv.num_inv
+    obtain ⟨ns, hns⟩ := ih (fun w hw => h w (List.mem_cons_of_mem _ hw))
+    exact ⟨x :: ns, by simp [numArgs, hns]⟩
+
+theorem emit_ok {S : Store} {st : St F} (hk : HeapOk S st.heap) (hgl : GlobalOk S Gg st.global) (e : Effect F) :
+    GoodBI Gg none S st (.ok .none (emit st e)) :=
+  ⟨S, Grows.refl S, hk, hgl, rfl, by intro t ht; cases ht⟩
+
+theorem bi_len (hx : ExtOk ext) (hg : GgOk Gg) (tys : List Ty) (vs : List (Val F)) (st : St F) (S : Store)
+    (hle : (⟨[isAnyT], none, some .num⟩ : BSig).params.length ≤ vs.length)
+    (hfix : (⟨[isAnyT], none, some .num⟩ : BSig).rest = none → vs.length = (⟨[isAnyT], none, some .num⟩ : BSig).params.length)
+    (hz : PZ tys S vs) (hpred : ∀ (i : Nat) ta, tys[i]? = some ta → (⟨[isAnyT], none, some .num⟩ : BSig).paramAt i ta = true)
+    (hk : HeapOk S st.heap) (hgl : GlobalOk S Gg st.global) :
+    ∃ r, callBuiltin ops ext (lit "len") vs st = some r ∧ GoodBI Gg (⟨[isAnyT], none, some .num⟩ : BSig).ret S st r := by
+  simp [callBuiltin, isBuiltin, builtinNames, lit]
+  obtain ⟨v, t, rfl, rfl, hv⟩ := one_arg (hfix rfl) hz
+  have := isAnyT_eq (hpred 0 t rfl); subst this
+  obtain ⟨t', w, rfl, _, hw⟩ := hv.any_inv
+  cases hw with
+  | str x => exact same_state Gg hk hgl _ _ (fun t ht => by cases ht; exact .num _)
+  | arr a s ha =>
+    obtain ⟨es, he, _⟩ := hk.arr a s ha
+    simp only [heapGet, he]
+    exact same_state Gg hk hgl _ _ (fun t ht => by cases ht; exact .num _)
+  | map a s ha =>
+    obtain ⟨m, he, _⟩ := hk.map a s ha
+    simp only [heapGet, he]
+    exact same_state Gg hk hgl _ _ (fun t ht => by cases ht; exact .num _)
+  | num x => exact trivial
+  | bool x => exact trivial
+  | any t1 v1 hne h1 => exact trivial
+
+theorem bi_typeof (hx : ExtOk ext) (hg : GgOk Gg) (tys : List Ty) (vs : List (Val F)) (st : St F) (S : Store)
+    (hle : (⟨[isAnyT], none, some .str⟩ : BSig).params.length ≤ vs.length)
+    (hfix : (⟨[isAnyT], none, some .str⟩ : BSig).rest = none → vs.length = (⟨[isAnyT], none, some .str⟩ : BSig).params.length)
+    (hz : PZ tys S vs) (hpred : ∀ (i : Nat) ta, tys[i]? = some ta → (⟨[isAnyT], none, some .str⟩ : BSig).paramAt i ta = true)
+    (hk : HeapOk S st.heap) (hgl : GlobalOk S Gg st.global) :
+    ∃ r, callBuiltin ops ext (lit "typeof") vs st = some r ∧ GoodBI Gg (⟨[isAnyT], none, some .str⟩ : BSig).ret S st r := by
+  simp [callBuiltin, isBuiltin, builtinNames, lit]
+  obtain ⟨v, t, rfl, rfl, hv⟩ := one_arg (hfix rfl) hz
+  have := isAnyT_eq (hpred 0 t rfl); subst this
+  obtain ⟨t', w, rfl, _, hw⟩ := hv.any_inv
+  exact same_state Gg hk hgl _ _ (fun t ht => by cases ht; exact .str _)
+
+theorem bi_has (hx : ExtOk ext) (hg : GgOk Gg) (tys : List Ty) (vs : List (Val F)) (st : St F) (S : Store)
+    (hle : (⟨[isMapT, isStrT], none, some .bool⟩ : BSig).params.length ≤ vs.length)
+    (hfix : (⟨[isMapT, isStrT], none, some .bool⟩ : BSig).rest = none → vs.length = (⟨[isMapT, isStrT], none, some .bool⟩ : BSig).params.length)
+    (hz : PZ tys S vs) (hpred : ∀ (i : Nat) ta, tys[i]? = some ta → (⟨[isMapT, isStrT], none, some .bool⟩ : BSig).paramAt i ta = true)
+    (hk : HeapOk S st.heap) (hgl : GlobalOk S Gg st.global) :
+    ∃ r, callBuiltin ops ext (lit "has") vs st = some r ∧ GoodBI Gg (⟨[isMapT, isStrT], none, some .bool⟩ : BSig).ret S st r := by
+  simp [callBuiltin, isBuiltin, builtinNames, lit]
+  obtain ⟨v1, v2, t1, t2, rfl, rfl, h1, h2⟩ := two_args (hfix rfl) hz
+  obtain ⟨s, rfl⟩ := isMapT_eq (hpred 0 t1 rfl)
+  have := isStrT_eq (hpred 1 t2 rfl); subst this
+  obtain ⟨a, rfl, ha⟩ := h1.map_inv
+  obtain ⟨k, rfl⟩ := h2.str_inv
+  obtain ⟨m, he, _⟩ := hk.map a s ha
+  simp only [heapGet, he]
+  exact same_state Gg hk hgl _ _ (fun t ht => by cases ht; exact .bool _)
+
+theorem bi_del (hx : ExtOk ext) (hg : GgOk Gg) (tys : List Ty) (vs : List (Val F)) (st : St F) (S : Store)
+    (hle : (⟨[isMapT, isStrT], none, none⟩ : BSig).params.length ≤ vs.length)
+    (hfix : (⟨[isMapT, isStrT], none, none⟩ : BSig).rest = none → vs.length = (⟨[isMapT, isStrT], none, none⟩ : BSig).params.length)
+    (hz : PZ tys S vs) (hpred : ∀ (i : Nat) ta, tys[i]? = some ta → (⟨[isMapT, isStrT], none, none⟩ : BSig).paramAt i ta = true)
+    (hk : HeapOk S st.heap) (hgl : GlobalOk S Gg st.global) :
+    ∃ r, callBuiltin ops ext (lit "del") vs st = some r ∧ GoodBI Gg (⟨[isMapT, isStrT], none, none⟩ : BSig).ret S st r := by
+  simp [callBuiltin, isBuiltin, builtinNames, lit]
+  obtain ⟨v1, v2, t1, t2, rfl, rfl, h1, h2⟩ := two_args (hfix rfl) hz
+  obtain ⟨s, rfl⟩ := isMapT_eq (hpred 0 t1 rfl)
+  have := isStrT_eq (hpred 1 t2 rfl); subst this
+  obtain ⟨a, rfl, ha⟩ := h1.map_inv
+  obtain ⟨k, rfl⟩ := h2.str_inv
+  obtain ⟨m, he, hm⟩ := hk.map a s ha
+  simp only [heapGet, he]
+  exact ⟨S, Grows.refl S, hk.set_map a s ha _ (delete_typed m k hm), hgl, rfl, by intro t ht; cases ht⟩
+
+theorem bi_str2bool (hx : ExtOk ext) (hg : GgOk Gg) (tys : List Ty) (vs : List (Val F)) (st : St F) (S : Store)
+    (hle : (⟨[isStrT], none, some .bool⟩ : BSig).params.length ≤ vs.length)
+    (hfix : (⟨[isStrT], none, some .bool⟩ : BSig).rest = none → vs.length = (⟨[isStrT], none, some .bool⟩ : BSig).params.length)
+    (hz : PZ tys S vs) (hpred : ∀ (i : Nat) ta, tys[i]? = some ta → (⟨[isStrT], none, some .bool⟩ : BSig).paramAt i ta = true)
+    (hk : HeapOk S st.heap) (hgl : GlobalOk S Gg st.global) :
+    ∃ r, callBuiltin ops ext (lit "str2bool") vs st = some r ∧ GoodBI Gg (⟨[isStrT], none, some .bool⟩ : BSig).ret S st r := by
+  simp [callBuiltin, isBuiltin, builtinNames, lit]
+  obtain ⟨v, t, rfl, rfl, hv⟩ := one_arg (hfix rfl) hz
+  have := isStrT_eq (hpred 0 t rfl); subst this
+  obtain ⟨x, rfl⟩ := hv.str_inv
+  simp only
+  cases hp : parseBool x with
+  | some b =>
+    exact ⟨S, Grows.refl S, hk, setGlobalErr_ok Gg hg hgl _ _, rfl, fun t ht => by cases ht; exact .bool _⟩
+  | none =>
+    simp only [callExt]
+    cases hq : ext.call "quote" [XArg.str x] with
+    | some q => exact ⟨S, Grows.refl S, hk, setGlobalErr_ok Gg hg hgl _ _, rfl, fun t ht => by cases ht; exact .bool _⟩
+    | none =>
+      exact ⟨S, Grows.refl S, hk,
+        setGlobalErr_ok Gg hg (st := { st with misses := ("quote", [XArg.str x]) :: st.misses, stopped := true }) hgl _ _, rfl,
+        fun t ht => by cases ht; exact .bool _⟩
+
+theorem bi_sprint (hx : ExtOk ext) (hg : GgOk Gg) (tys : List Ty) (vs : List (Val F)) (st : St F) (S : Store)
+    (hle : (⟨[], some (fun _ => true), some .str⟩ : BSig).params.length ≤ vs.length)
+    (hfix : (⟨[], some (fun _ => true), some .str⟩ : BSig).rest = none → vs.length = (⟨[], some (fun _ => true), some .str⟩ : BSig).params.length)
+    (hz : PZ tys S vs) (hpred : ∀ (i : Nat) ta, tys[i]? = some ta → (⟨[], some (fun _ => true), some .str⟩ : BSig).paramAt i ta = true)
+    (hk : HeapOk S st.heap) (hgl : GlobalOk S Gg st.global) :
+    ∃ r, callBuiltin ops ext (lit "sprint") vs st = some r ∧ GoodBI Gg (⟨[], some (fun _ => true), some .str⟩ : BSig).ret S st r := by
+  simp [callBuiltin, isBuiltin, builtinNames, lit]
+  cases joinVals ops st vs [' '] with
+  | none => exact trivial
+  | some str => exact same_state Gg hk hgl _ _ (fun t ht => by cases ht; exact .str _)
+
+theorem bi_join (hx : ExtOk ext) (hg : GgOk Gg) (tys : List Ty) (vs : List (Val F)) (st : St F) (S : Store)
+    (hle : (⟨[isArrT, isStrT], none, some .str⟩ : BSig).params.length ≤ vs.length)
+    (hfix : (⟨[isArrT, isStrT], none, some .str⟩ : BSig).rest = none → vs.length = (⟨[isArrT, isStrT], none, some .str⟩ : BSig).params.length)
+    (hz : PZ tys S vs) (hpred : ∀ (i : Nat) ta, tys[i]? = some ta → (⟨[isArrT, isStrT], none, some .str⟩ : BSig).paramAt i ta = true)
+    (hk : HeapOk S st.heap) (hgl : GlobalOk S Gg st.global) :
+    ∃ r, callBuiltin ops ext (lit "join") vs st = some r ∧ GoodBI Gg (⟨[isArrT, isStrT], none, some .str⟩ : BSig).ret S st r := by
+  simp [callBuiltin, isBuiltin, builtinNames, lit]
+  obtain ⟨v1, v2, t1, t2, rfl, rfl, h1, h2⟩ := two_args (hfix rfl) hz
+  obtain ⟨s, rfl⟩ := isArrT_eq (hpred 0 t1 rfl)
+  have := isStrT_eq (hpred 1 t2 rfl); subst this
+  obtain ⟨a, rfl, ha⟩ := h1.arr_inv
+  obtain ⟨k, rfl⟩ := h2.str_inv
+  obtain ⟨es, he, _⟩ := hk.arr a s ha
+  simp only [heapGet, he]
+  cases joinVals ops st es k with
+  | none => exact trivial
+  | some str => exact same_state Gg hk hgl _ _ (fun t ht => by cases ht; exact .str _)
+
+theorem bi_startswith (hx : ExtOk ext) (hg : GgOk Gg) (tys : List Ty) (vs : List (Val F)) (st : St F) (S : Store)
+    (hle : (⟨[isStrT, isStrT], none, some .bool⟩ : BSig).params.length ≤ vs.length)
+    (hfix : (⟨[isStrT, isStrT], none, some .bool⟩ : BSig).rest = none → vs.length = (⟨[isStrT, isStrT], none, some .bool⟩ : BSig).params.length)
+    (hz : PZ tys S vs) (hpred : ∀ (i : Nat) ta, tys[i]? = some ta → (⟨[isStrT, isStrT], none, some .bool⟩ : BSig).paramAt i ta = true)
+    (hk : HeapOk S st.heap) (hgl : GlobalOk S Gg st.global) :
+    ∃ r, callBuiltin ops ext (lit "startswith") vs st = some r ∧ GoodBI Gg (⟨[isStrT, isStrT], none, some .bool⟩ : BSig).ret S st r := by
+  simp [callBuiltin, isBuiltin, builtinNames, lit]
+  obtain ⟨v1, v2, t1, t2, rfl, rfl, h1, h2⟩ := two_args (hfix rfl) hz
+  have := isStrT_eq (hpred 0 t1 rfl); subst this
+  have := isStrT_eq (hpred 1 t2 rfl); subst this
+  obtain ⟨x, rfl⟩ := h1.str_inv
+  obtain ⟨y, rfl⟩ := h2.str_inv
+  exact same_state Gg hk hgl _ _ (fun t ht => by cases ht; exact .bool _)
+
+theorem bi_endswith (hx : ExtOk ext) (hg : GgOk Gg) (tys : List Ty) (vs : List (Val F)) (st : St F) (S : Store)
+    (hle : (⟨[isStrT, isStrT], none, some .bool⟩ : BSig).params.length ≤ vs.length)
+    (hfix : (⟨[isStrT, isStrT], none, some .bool⟩ : BSig).rest = none → vs.length = (⟨[isStrT, isStrT], none, some .bool⟩ : BSig).params.length)
+    (hz : PZ tys S vs) (hpred : ∀ (i : Nat) ta, tys[i]? = some ta → (⟨[isStrT, isStrT], none, some .bool⟩ : BSig).paramAt i ta = true)
+    (hk : HeapOk S st.heap) (hgl : GlobalOk S Gg st.global) :
+    ∃ r, callBuiltin ops ext (lit "endswith") vs st = some r ∧ GoodBI Gg (⟨[isStrT, isStrT], none, some .bool⟩ : BSig).ret S st r := by
+  simp [callBuiltin, isBuiltin, builtinNames, lit]
+  obtain ⟨v1, v2, t1, t2, rfl, rfl, h1, h2⟩ := two_args (hfix rfl) hz
+  have := isStrT_eq (hpred 0 t1 rfl); subst this
+  have := isStrT_eq (hpred 1 t2 rfl); subst this
+  obtain ⟨x, rfl⟩ := h1.str_inv
+  obtain ⟨y, rfl⟩ := h2.str_inv
+  exact same_state Gg hk hgl _ _ (fun t ht => by cases ht; exact .bool _)
+
+theorem bi_index (hx : ExtOk ext) (hg : GgOk Gg) (tys : List Ty) (vs : List (Val F)) (st : St F) (S : Store)
+    (hle : (⟨[isStrT, isStrT], none, some .num⟩ : BSig).params.length ≤ vs.length)
+    (hfix : (⟨[isStrT, isStrT], none, some .num⟩ : BSig).rest = none → vs.length = (⟨[isStrT, isStrT], none, some .num⟩ : BSig).params.length)
+    (hz : PZ tys S vs) (hpred : ∀ (i : Nat) ta, tys[i]? = some ta → (⟨[isStrT, isStrT], none, some .num⟩ : BSig).paramAt i ta = true)
+    (hk : HeapOk S st.heap) (hgl : GlobalOk S Gg st.global) :
+    ∃ r, callBuiltin ops ext (lit "index") vs st = some r ∧ GoodBI Gg (⟨[isStrT, isStrT], none, some .num⟩ : BSig).ret S st r := by
+  simp [callBuiltin, isBuiltin, builtinNames, lit]
+  obtain ⟨v1, v2, t1, t2, rfl, rfl, h1, h2⟩ := two_args (hfix rfl) hz
+  have := isStrT_eq (hpred 0 t1 rfl); subst this
+  have := isStrT_eq (hpred 1 t2 rfl); subst this
+  obtain ⟨x, rfl⟩ := h1.str_inv
+  obtain ⟨y, rfl⟩ := h2.str_inv
+  exact same_state Gg hk hgl _ _ (fun t ht => by cases ht; exact .num _)
+
+theorem bi_exit (hx : ExtOk ext) (hg : GgOk Gg) (tys : List Ty) (vs : List (Val F)) (st : St F) (S : Store)
+    (hle : (⟨[isNumT], none, none⟩ : BSig).params.length ≤ vs.length)
+    (hfix : (⟨[isNumT], none, none⟩ : BSig).rest = none → vs.length = (⟨[isNumT], none, none⟩ : BSig).params.length)
+    (hz : PZ tys S vs) (hpred : ∀ (i : Nat) ta, tys[i]? = some ta → (⟨[isNumT], none, none⟩ : BSig).paramAt i ta = true)
+    (hk : HeapOk S st.heap) (hgl : GlobalOk S Gg st.global) :
+    ∃ r, callBuiltin ops ext (lit "exit") vs st = some r ∧ GoodBI Gg (⟨[isNumT], none, none⟩ : BSig).ret S st r := by
+  simp [callBuiltin, isBuiltin, builtinNames, lit]
+  obtain ⟨v, t, rfl, rfl, hv⟩ := one_arg (hfix rfl) hz
+  have := isNumT_eq (hpred 0 t rfl); subst this
+  obtain ⟨x, rfl⟩ := hv.num_inv
+  exact trivial
+
+theorem bi_panic (hx : ExtOk ext) (hg : GgOk Gg) (tys : List Ty) (vs : List (Val F)) (st : St F) (S : Store)
+    (hle : (⟨[isStrT], none, none⟩ : BSig).params.length ≤ vs.length)
+    (hfix : (⟨[isStrT], none, none⟩ : BSig).rest = none → vs.length = (⟨[isStrT], none, none⟩ : BSig).params.length)
+    (hz : PZ tys S vs) (hpred : ∀ (i : Nat) ta, tys[i]? = some ta → (⟨[isStrT], none, none⟩ : BSig).paramAt i ta = true)
+    (hk : HeapOk S st.heap) (hgl : GlobalOk S Gg st.global) :
+    ∃ r, callBuiltin ops ext (lit "panic") vs st = some r ∧ GoodBI Gg (⟨[isStrT], none, none⟩ : BSig).ret S st r := by
+  simp [callBuiltin, isBuiltin, builtinNames, lit]
+  obtain ⟨v, t, rfl, rfl, hv⟩ := one_arg (hfix rfl) hz
+  have := isStrT_eq (hpred 0 t rfl); subst this
+  obtain ⟨x, rfl⟩ := hv.str_inv
+  exact trivial
+
+theorem bi_sleep (hx : ExtOk ext) (hg : GgOk Gg) (tys : List Ty) (vs : List (Val F)) (st : St F) (S : Store)
+    (hle : (⟨[isNumT], none, none⟩ : BSig).params.length ≤ vs.length)
+    (hfix : (⟨[isNumT], none, none⟩ : BSig).rest = none → vs.length = (⟨[isNumT], none, none⟩ : BSig).params.length)
+    (hz : PZ tys S vs) (hpred : ∀ (i : Nat) ta, tys[i]? = some ta → (⟨[isNumT], none, none⟩ : BSig).paramAt i ta = true)
+    (hk : HeapOk S st.heap) (hgl : GlobalOk S Gg st.global) :
+    ∃ r, callBuiltin ops ext (lit "sleep") vs st = some r ∧ GoodBI Gg (⟨[isNumT], none, none⟩ : BSig).ret S st r := by
+  simp [callBuiltin, isBuiltin, builtinNames, lit]
+  obtain ⟨v, t, rfl, rfl, hv⟩ := one_arg (hfix rfl) hz
+  have := isNumT_eq (hpred 0 t rfl); subst this
+  obtain ⟨x, rfl⟩ := hv.num_inv
+  exact ⟨S, Grows.refl S, hk, hgl, rfl, by intro t ht; cases ht⟩
+
+theorem bi_cls (hx : ExtOk ext) (hg : GgOk Gg) (tys : List Ty) (vs : List (Val F)) (st : St F) (S : Store)
+    (hle : (⟨[], none, none⟩ : BSig).params.length ≤ vs.length)
+    (hfix : (⟨[], none, none⟩ : BSig).rest = none → vs.length = (⟨[], none, none⟩ : BSig).params.length)
+    (hz : PZ tys S vs) (hpred : ∀ (i : Nat) ta, tys[i]? = some ta → (⟨[], none, none⟩ : BSig).paramAt i ta = true)
+    (hk : HeapOk S st.heap) (hgl : GlobalOk S Gg st.global) :
+    ∃ r, callBuiltin ops ext (lit "cls") vs st = some r ∧ GoodBI Gg (⟨[], none, none⟩ : BSig).ret S st r := by
+  simp [callBuiltin, isBuiltin, builtinNames, lit]
+  exact ⟨S, Grows.refl S, hk, hgl, rfl, by intro t ht; cases ht⟩
+
+theorem bi_read (hx : ExtOk ext) (hg : GgOk Gg) (tys : List Ty) (vs : List (Val F)) (st : St F) (S : Store)
+    (hle : (⟨[], none, some .str⟩ : BSig).params.length ≤ vs.length)
+    (hfix : (⟨[], none, some .str⟩ : BSig).rest = none → vs.length = (⟨[], none, some .str⟩ : BSig).params.length)
+    (hz : PZ tys S vs) (hpred : ∀ (i : Nat) ta, tys[i]? = some ta → (⟨[], none, some .str⟩ : BSig).paramAt i ta = true)
+    (hk : HeapOk S st.heap) (hgl : GlobalOk S Gg st.global) :
+    ∃ r, callBuiltin ops ext (lit "read") vs st = some r ∧ GoodBI Gg (⟨[], none, some .str⟩ : BSig).ret S st r := by
+  simp [callBuiltin, isBuiltin, builtinNames, lit]
+  cases hi : st.input with
+  | nil => exact ⟨S, Grows.refl S, hk, hgl, rfl, fun t ht => by cases ht; exact .str _⟩
+  | cons l rest => exact ⟨S, Grows.refl S, hk, hgl, rfl, fun t ht => by cases ht; exact .str _⟩
+
+theorem bi_abs (hx : ExtOk ext) (hg : GgOk Gg) (tys : List Ty) (vs : List (Val F)) (st : St F) (S : Store)
+    (hle : (⟨[isNumT], none, some .num⟩ : BSig).params.length ≤ vs.length)
+    (hfix : (⟨[isNumT], none, some .num⟩ : BSig).rest = none → vs.length = (⟨[isNumT], none, some .num⟩ : BSig).params.length)
+    (hz : PZ tys S vs) (hpred : ∀ (i : Nat) ta, tys[i]? = some ta → (⟨[isNumT], none, some .num⟩ : BSig).paramAt i ta = true)
+    (hk : HeapOk S st.heap) (hgl : GlobalOk S Gg st.global) :
+    ∃ r, callBuiltin ops ext (lit "abs") vs st = some r ∧ GoodBI Gg (⟨[isNumT], none, some .num⟩ : BSig).ret S st r := by
+  simp [callBuiltin, isBuiltin, builtinNames, lit]
+  obtain ⟨v, t, rfl, rfl, hv⟩ := one_arg (hfix rfl) hz
+  have := isNumT_eq (hpred 0 t rfl); subst this
+  obtain ⟨x, rfl⟩ := hv.num_inv
+  exact forward_num ext Gg hx hk hgl _ (by simp [numFns]) _ _
+
+theorem bi_floor (hx : ExtOk ext) (hg : GgOk Gg) (tys : List Ty) (vs : List (Val F)) (st : St F) (S : Store)
+    (hle : (⟨[isNumT], none, some .num⟩ : BSig).params.length ≤ vs.length)
+    (hfix : (⟨[isNumT], none, some .num⟩ : BSig).rest = none → vs.length = (⟨[isNumT], none, some .num⟩ : BSig).params.length)
+    (hz : PZ tys S vs) (hpred : ∀ (i : Nat) ta, tys[i]? = some ta → (⟨[isNumT], none, some .num⟩ : BSig).paramAt i ta = true)
+    (hk : HeapOk S st.heap) (hgl : GlobalOk S Gg st.global) :
+    ∃ r, callBuiltin ops ext (lit "floor") vs st = some r ∧ GoodBI Gg (⟨[isNumT], none, some .num⟩ : BSig).ret S st r := by
+  simp [callBuiltin, isBuiltin, builtinNames, lit]
+  obtain ⟨v, t, rfl, rfl, hv⟩ := one_arg (hfix rfl) hz
+  have := isNumT_eq (hpred 0 t rfl); subst this
+  obtain ⟨x, rfl⟩ := hv.num_inv
+  exact forward_num ext Gg hx hk hgl _ (by simp [numFns]) _ _
+
+theorem bi_ceil (hx : ExtOk ext) (hg : GgOk Gg) (tys : List Ty) (vs : List (Val F)) (st : St F) (S : Store)
+    (hle : (⟨[isNumT], none, some .num⟩ : BSig).params.length ≤ vs.length)
+    (hfix : (⟨[isNumT], none, some .num⟩ : BSig).rest = none → vs.length = (⟨[isNumT], none, some .num⟩ : BSig).params.length)
+    (hz : PZ tys S vs) (hpred : ∀ (i : Nat) ta, tys[i]? = some ta → (⟨[isNumT], none, some .num⟩ : BSig).paramAt i ta = true)
+    (hk : HeapOk S st.heap) (hgl : GlobalOk S Gg st.global) :
+    ∃ r, callBuiltin ops ext (lit "ceil") vs st = some r ∧ GoodBI Gg (⟨[isNumT], none, some .num⟩ : BSig).ret S st r := by
+  simp [callBuiltin, isBuiltin, builtinNames, lit]
+  obtain ⟨v, t, rfl, rfl, hv⟩ := one_arg (hfix rfl) hz
+  have := isNumT_eq (hpred 0 t rfl); subst this
+  obtain ⟨x, rfl⟩ := hv.num_inv
+  exact forward_num ext Gg hx hk hgl _ (by simp [numFns]) _ _
+
+theorem bi_round (hx : ExtOk ext) (hg : GgOk Gg) (tys : List Ty) (vs : List (Val F)) (st : St F) (S : Store)
+    (hle : (⟨[isNumT], none, some .num⟩ : BSig).params.length ≤ vs.length)
+    (hfix : (⟨[isNumT], none, some .num⟩ : BSig).rest = none → vs.length = (⟨[isNumT], none, some .num⟩ : BSig).params.length)
+    (hz : PZ tys S vs) (hpred : ∀ (i : Nat) ta, tys[i]? = some ta → (⟨[isNumT], none, some .num⟩ : BSig).paramAt i ta = true)
+    (hk : HeapOk S st.heap) (hgl : GlobalOk S Gg st.global) :
+    ∃ r, callBuiltin ops ext (lit "round") vs st = some r ∧ GoodBI Gg (⟨[isNumT], none, some .num⟩ : BSig).ret S st r := by
+  simp [callBuiltin, isBuiltin, builtinNames, lit]
+  obtain ⟨v, t, rfl, rfl, hv⟩ := one_arg (hfix rfl) hz
+  have := isNumT_eq (hpred 0 t rfl); subst this
+  obtain ⟨x, rfl⟩ := hv.num_inv
+  exact forward_num ext Gg hx hk hgl _ (by simp [numFns]) _ _
+
+theorem bi_log (hx : ExtOk ext) (hg : GgOk Gg) (tys : List Ty) (vs : List (Val F)) (st : St F) (S : Store)
+    (hle : (⟨[isNumT], none, some .num⟩ : BSig).params.length ≤ vs.length)
+    (hfix : (⟨[isNumT], none, some .num⟩ : BSig).rest = none → vs.length = (⟨[isNumT], none, some .num⟩ : BSig).params.length)
+    (hz : PZ tys S vs) (hpred : ∀ (i : Nat) ta, tys[i]? = some ta → (⟨[isNumT], none, some .num⟩ : BSig).paramAt i ta = true)
+    (hk : HeapOk S st.heap) (hgl : GlobalOk S Gg st.global) :
+    ∃ r, callBuiltin ops ext (lit "log") vs st = some r ∧ GoodBI Gg (⟨[isNumT], none, some .num⟩ : BSig).ret S st r := by
+  simp [callBuiltin, isBuiltin, builtinNames, lit]
+  obtain ⟨v, t, rfl, rfl, hv⟩ := one_arg (hfix rfl) hz
+  have := isNumT_eq (hpred 0 t rfl); subst this
+  obtain ⟨x, rfl⟩ := hv.num_inv
+  exact forward_num ext Gg hx hk hgl _ (by simp [numFns]) _ _
+
+theorem bi_sqrt (hx : ExtOk ext) (hg : GgOk Gg) (tys : List Ty) (vs : List (Val F)) (st : St F) (S : Store)
+    (hle : (⟨[isNumT], none, some .num⟩ : BSig).params.length ≤ vs.length)
+    (hfix : (⟨[isNumT], none, some .num⟩ : BSig).rest = none → vs.length = (⟨[isNumT], none, some .num⟩ : BSig).params.length)
+    (hz : PZ tys S vs) (hpred : ∀ (i : Nat) ta, tys[i]? = some ta → (⟨[isNumT], none, some .num⟩ : BSig).paramAt i ta = true)
+    (hk : HeapOk S st.heap) (hgl : GlobalOk S Gg st.global) :
+    ∃ r, callBuiltin ops ext (lit "sqrt") vs st = some r ∧ GoodBI Gg (⟨[isNumT], none, some .num⟩ : BSig).ret S st r := by
+  simp [callBuiltin, isBuiltin, builtinNames, lit]
+  obtain ⟨v, t, rfl, rfl, hv⟩ := one_arg (hfix rfl) hz
+  have := isNumT_eq (hpred 0 t rfl); subst this
+  obtain ⟨x, rfl⟩ := hv.num_inv
+  exact forward_num ext Gg hx hk hgl _ (by simp [numFns]) _ _
+
+theorem bi_sin (hx : ExtOk ext) (hg : GgOk Gg) (tys : List Ty) (vs : List (Val F)) (st : St F) (S : Store)
+    (hle : (⟨[isNumT], none, some .num⟩ : BSig).params.length ≤ vs.length)
+    (hfix : (⟨[isNumT], none, some .num⟩ : BSig).rest = none → vs.length = (⟨[isNumT], none, some .num⟩ : BSig).params.length)
+    (hz : PZ tys S vs) (hpred : ∀ (i : Nat) ta, tys[i]? = some ta → (⟨[isNumT], none, some .num⟩ : BSig).paramAt i ta = true)
+    (hk : HeapOk S st.heap) (hgl : GlobalOk S Gg st.global) :
+    ∃ r, callBuiltin ops ext (lit "sin") vs st = some r ∧ GoodBI Gg (⟨[isNumT], none, some .num⟩ : BSig).ret S st r := by
+  simp [callBuiltin, isBuiltin, builtinNames, lit]
+  obtain ⟨v, t, rfl, rfl, hv⟩ := one_arg (hfix rfl) hz
+  have := isNumT_eq (hpred 0 t rfl); subst this
+  obtain ⟨x, rfl⟩ := hv.num_inv
+  exact forward_num ext Gg hx hk hgl _ (by simp [numFns]) _ _
+
+theorem bi_cos (hx : ExtOk ext) (hg : GgOk Gg) (tys : List Ty) (vs : List (Val F)) (st : St F) (S : Store)
+    (hle : (⟨[isNumT], none, some .num⟩ : BSig).params.length ≤ vs.length)
+    (hfix : (⟨[isNumT], none, some .num⟩ : BSig).rest = none → vs.length = (⟨[isNumT], none, some .num⟩ : BSig).params.length)
+    (hz : PZ tys S vs) (hpred : ∀ (i : Nat) ta, tys[i]? = some ta → (⟨[isNumT], none, some .num⟩ : BSig).paramAt i ta = true)
+    (hk : HeapOk S st.heap) (hgl : GlobalOk S Gg st.global) :
+    ∃ r, callBuiltin ops ext (lit "cos") vs st = some r ∧ GoodBI Gg (⟨[isNumT], none, some .num⟩ : BSig).ret S st r := by
+  simp [callBuiltin, isBuiltin, builtinNames, lit]
+  obtain ⟨v, t, rfl, rfl, hv⟩ := one_arg (hfix rfl) hz
+  have := isNumT_eq (hpred 0 t rfl); subst this
+  obtain ⟨x, rfl⟩ := hv.num_inv
+  exact forward_num ext Gg hx hk hgl _ (by simp [numFns]) _ _
+
+theorem bi_min (hx : ExtOk ext) (hg : GgOk Gg) (tys : List Ty) (vs : List (Val F)) (st : St F) (S : Store)
+    (hle : (⟨[isNumT, isNumT], none, some .num⟩ : BSig).params.length ≤ vs.length)
+    (hfix : (⟨[isNumT, isNumT], none, some .num⟩ : BSig).rest = none → vs.length = (⟨[isNumT, isNumT], none, some .num⟩ : BSig).params.length)
+    (hz : PZ tys S vs) (hpred : ∀ (i : Nat) ta, tys[i]? = some ta → (⟨[isNumT, isNumT], none, some .num⟩ : BSig).paramAt i ta = true)
+    (hk : HeapOk S st.heap) (hgl : GlobalOk S Gg st.global) :
+    ∃ r, callBuiltin ops ext (lit "min") vs st = some r ∧ GoodBI Gg (⟨[isNumT, isNumT], none, some .num⟩ : BSig).ret S st r := by
+  simp [callBuiltin, isBuiltin, builtinNames, lit]
+  obtain ⟨v1, v2, t1, t2, rfl, rfl, h1, h2⟩ := two_args (hfix rfl) hz
+  have := isNumT_eq (hpred 0 t1 rfl); subst this
+  have := isNumT_eq (hpred 1 t2 rfl); subst this
+  obtain ⟨x, rfl⟩ := h1.num_inv
+  obtain ⟨y, rfl⟩ := h2.num_inv
+  exact forward_num ext Gg hx hk hgl _ (by simp [numFns]) _ _
+
+theorem bi_max (hx : ExtOk ext) (hg : GgOk Gg) (tys : List Ty) (vs : List (Val F)) (st : St F) (S : Store)
+    (hle : (⟨[isNumT, isNumT], none, some .num⟩ : BSig).params.length ≤ vs.length)
+    (hfix : (⟨[isNumT, isNumT], none, some .num⟩ : BSig).rest = none → vs.length = (⟨[isNumT, isNumT], none, some .num⟩ : BSig).params.length)
+    (hz : PZ tys S vs) (hpred : ∀ (i : Nat) ta, tys[i]? = some ta → (⟨[isNumT, isNumT], none, some .num⟩ : BSig).paramAt i ta = true)
+    (hk : HeapOk S st.heap) (hgl : GlobalOk S Gg st.global) :
+    ∃ r, callBuiltin ops ext (lit "max") vs st = some r ∧ GoodBI Gg (⟨[isNumT, isNumT], none, some .num⟩ : BSig).ret S st r := by
+  simp [callBuiltin, isBuiltin, builtinNames, lit]
+  obtain ⟨v1, v2, t1, t2, rfl, rfl, h1, h2⟩ := two_args (hfix rfl) hz
+  have := isNumT_eq (hpred 0 t1 rfl); subst this
+  have := isNumT_eq (hpred 1 t2 rfl); subst this
+  obtain ⟨x, rfl⟩ := h1.num_inv
+  obtain ⟨y, rfl⟩ := h2.num_inv
+  exact forward_num ext Gg hx hk hgl _ (by simp [numFns]) _ _
+
+theorem bi_pow (hx : ExtOk ext) (hg : GgOk Gg) (tys : List Ty) (vs : List (Val F)) (st : St F) (S : Store)
+    (hle : (⟨[isNumT, isNumT], none, some .num⟩ : BSig).params.length ≤ vs.length)
+    (hfix : (⟨[isNumT, isNumT], none, some .num⟩ : BSig).rest = none → vs.length = (⟨[isNumT, isNumT], none, some .num⟩ : BSig).params.length)
+    (hz : PZ tys S vs) (hpred : ∀ (i : Nat) ta, tys[i]? = some ta → (⟨[isNumT, isNumT], none, some .num⟩ : BSig).paramAt i ta = true)
+    (hk : HeapOk S st.heap) (hgl : GlobalOk S Gg st.global) :
+    ∃ r, callBuiltin ops ext (lit "pow") vs st = some r ∧ GoodBI Gg (⟨[isNumT, isNumT], none, some .num⟩ : BSig).ret S st r := by
+  simp [callBuiltin, isBuiltin, builtinNames, lit]
+  obtain ⟨v1, v2, t1, t2, rfl, rfl, h1, h2⟩ := two_args (hfix rfl) hz
+  have := isNumT_eq (hpred 0 t1 rfl); subst this
+  have := isNumT_eq (hpred 1 t2 rfl); subst this
+  obtain ⟨x, rfl⟩ := h1.num_inv
+  obtain ⟨y, rfl⟩ := h2.num_inv
+  exact forward_num ext Gg hx hk hgl _ (by simp [numFns]) _ _
+
+theorem bi_atan2 (hx : ExtOk ext) (hg : GgOk Gg) (tys : List Ty) (vs : List (Val F)) (st : St F) (S : Store)
+    (hle : (⟨[isNumT, isNumT], none, some .num⟩ : BSig).params.length ≤ vs.length)
+    (hfix : (⟨[isNumT, isNumT], none, some .num⟩ : BSig).rest = none → vs.length = (⟨[isNumT, isNumT], none, some .num⟩ : BSig).params.length)
+    (hz : PZ tys S vs) (hpred : ∀ (i : Nat) ta, tys[i]? = some ta → (⟨[isNumT, isNumT], none, some .num⟩ : BSig).paramAt i ta = true)
+    (hk : HeapOk S st.heap) (hgl : GlobalOk S Gg st.global) :
+    ∃ r, callBuiltin ops ext (lit "atan2") vs st = some r ∧ GoodBI Gg (⟨[isNumT, isNumT], none, some .num⟩ : BSig).ret S st r := by
+  simp [callBuiltin, isBuiltin, builtinNames, lit]
+  obtain ⟨v1, v2, t1, t2, rfl, rfl, h1, h2⟩ := two_args (hfix rfl) hz
+  have := isNumT_eq (hpred 0 t1 rfl); subst this
+  have := isNumT_eq (hpred 1 t2 rfl); subst this
+  obtain ⟨x, rfl⟩ := h1.num_inv
+  obtain ⟨y, rfl⟩ := h2.num_inv
+  exact forward_num ext Gg hx hk hgl _ (by simp [numFns]) _ _
+
+theorem bi_upper (hx : ExtOk ext) (hg : GgOk Gg) (tys : List Ty) (vs : List (Val F)) (st : St F) (S : Store)
+    (hle : (⟨[isStrT], none, some .str⟩ : BSig).params.length ≤ vs.length)
+    (hfix : (⟨[isStrT], none, some .str⟩ : BSig).rest = none → vs.length = (⟨[isStrT], none, some .str⟩ : BSig).params.length)
+    (hz : PZ tys S vs) (hpred : ∀ (i : Nat) ta, tys[i]? = some ta → (⟨[isStrT], none, some .str⟩ : BSig).paramAt i ta = true)
+    (hk : HeapOk S st.heap) (hgl : GlobalOk S Gg st.global) :
+    ∃ r, callBuiltin ops ext (lit "upper") vs st = some r ∧ GoodBI Gg (⟨[isStrT], none, some .str⟩ : BSig).ret S st r := by
+  simp [callBuiltin, isBuiltin, builtinNames, lit]
+  obtain ⟨v, t, rfl, rfl, hv⟩ := one_arg (hfix rfl) hz
+  have := isStrT_eq (hpred 0 t rfl); subst this
+  obtain ⟨x, rfl⟩ := hv.str_inv
+  exact forward_str ext Gg hx hk hgl _ (by simp [strFns]) _ _
+
+theorem bi_lower (hx : ExtOk ext) (hg : GgOk Gg) (tys : List Ty) (vs : List (Val F)) (st : St F) (S : Store)
+    (hle : (⟨[isStrT], none, some .str⟩ : BSig).params.length ≤ vs.length)
+    (hfix : (⟨[isStrT], none, some .str⟩ : BSig).rest = none → vs.length = (⟨[isStrT], none, some .str⟩ : BSig).params.length)
+    (hz : PZ tys S vs) (hpred : ∀ (i : Nat) ta, tys[i]? = some ta → (⟨[isStrT], none, some .str⟩ : BSig).paramAt i ta = true)
+    (hk : HeapOk S st.heap) (hgl : GlobalOk S Gg st.global) :
+    ∃ r, callBuiltin ops ext (lit "lower") vs st = some r ∧ GoodBI Gg (⟨[isStrT], none, some .str⟩ : BSig).ret S st r := by
+  simp [callBuiltin, isBuiltin, builtinNames, lit]
+  obtain ⟨v, t, rfl, rfl, hv⟩ := one_arg (hfix rfl) hz
+  have := isStrT_eq (hpred 0 t rfl); subst this
+  obtain ⟨x, rfl⟩ := hv.str_inv
+  exact forward_str ext Gg hx hk hgl _ (by simp [strFns]) _ _
+
+theorem bi_trim (hx : ExtOk ext) (hg : GgOk Gg) (tys : List Ty) (vs : List (Val F)) (st : St F) (S : Store)
+    (hle : (⟨[isStrT, isStrT], none, some .str⟩ : BSig).params.length ≤ vs.length)
+    (hfix : (⟨[isStrT, isStrT], none, some .str⟩ : BSig).rest = none → vs.length = (⟨[isStrT, isStrT], none, some .str⟩ : BSig).params.length)
+    (hz : PZ tys S vs) (hpred : ∀ (i : Nat) ta, tys[i]? = some ta → (⟨[isStrT, isStrT], none, some .str⟩ : BSig).paramAt i ta = true)
+    (hk : HeapOk S st.heap) (hgl : GlobalOk S Gg st.global) :
+    ∃ r, callBuiltin ops ext (lit "trim") vs st = some r ∧ GoodBI Gg (⟨[isStrT, isStrT], none, some .str⟩ : BSig).ret S st r := by
+  simp [callBuiltin, isBuiltin, builtinNames, lit]
+  obtain ⟨v1, v2, t1, t2, rfl, rfl, h1, h2⟩ := two_args (hfix rfl) hz
+  have := isStrT_eq (hpred 0 t1 rfl); subst this
+  have := isStrT_eq (hpred 1 t2 rfl); subst this
+  obtain ⟨x, rfl⟩ := h1.str_inv
+  obtain ⟨y, rfl⟩ := h2.str_inv
+  exact forward_str ext Gg hx hk hgl _ (by simp [strFns]) _ _
+
+theorem bi_replace (hx : ExtOk ext) (hg : GgOk Gg) (tys : List Ty) (vs : List (Val F)) (st : St F) (S : Store)
+    (hle : (⟨[isStrT, isStrT, isStrT], none, some .str⟩ : BSig).params.length ≤ vs.length)
+    (hfix : (⟨[isStrT, isStrT, isStrT], none, some .str⟩ : BSig).rest = none → vs.length = (⟨[isStrT, isStrT, isStrT], none, some .str⟩ : BSig).params.length)
+    (hz : PZ tys S vs) (hpred : ∀ (i : Nat) ta, tys[i]? = some ta → (⟨[isStrT, isStrT, isStrT], none, some .str⟩ : BSig).paramAt i ta = true)
+    (hk : HeapOk S st.heap) (hgl : GlobalOk S Gg st.global) :
+    ∃ r, callBuiltin ops ext (lit "replace") vs st = some r ∧ GoodBI Gg (⟨[isStrT, isStrT, isStrT], none, some .str⟩ : BSig).ret S st r := by
+  simp [callBuiltin, isBuiltin, builtinNames, lit]
+  obtain ⟨v1, v2, v3, t1, t2, t3, rfl, rfl, h1, h2, h3⟩ := three_args (hfix rfl) hz
+  have := isStrT_eq (hpred 0 t1 rfl); subst this
+  have := isStrT_eq (hpred 1 t2 rfl); subst this
+  have := isStrT_eq (hpred 2 t3 rfl); subst this
+  obtain ⟨x, rfl⟩ := h1.str_inv
+  obtain ⟨y, rfl⟩ := h2.str_inv
+  obtain ⟨z, rfl⟩ := h3.str_inv
+  exact forward_str ext Gg hx hk hgl _ (by simp [strFns]) _ _
+
+theorem bi_str2num (hx : ExtOk ext) (hg : GgOk Gg) (tys : List Ty) (vs : List (Val F)) (st : St F) (S : Store)
+    (hle : (⟨[isStrT], none, some .num⟩ : BSig).params.length ≤ vs.length)
+    (hfix : (⟨[isStrT], none, some .num⟩ : BSig).rest = none → vs.length = (⟨[isStrT], none, some .num⟩ : BSig).params.length)
+    (hz : PZ tys S vs) (hpred : ∀ (i : Nat) ta, tys[i]? = some ta → (⟨[isStrT], none, some .num⟩ : BSig).paramAt i ta = true)
+    (hk : HeapOk S st.heap) (hgl : GlobalOk S Gg st.global) :
+    ∃ r, callBuiltin ops ext (lit "str2num") vs st = some r ∧ GoodBI Gg (⟨[isStrT], none, some .num⟩ : BSig).ret S st r := by
+  simp [callBuiltin, isBuiltin, builtinNames, lit]
+  obtain ⟨v, t, rfl, rfl, hv⟩ := one_arg (hfix rfl) hz
+  have := isStrT_eq (hpred 0 t rfl); subst this
+  obtain ⟨x, rfl⟩ := hv.str_inv
+  simp only [callExt]
+  cases hc : ext.call "parsefloat" [XArg.str x] with
+  | none =>
+    exact ⟨S, Grows.refl S, hk,
+      setGlobalErr_ok Gg hg (st := { st with misses := ("parsefloat", [XArg.str x]) :: st.misses, stopped := true }) hgl _ _, rfl,
+      fun t ht => by cases ht; exact .num _⟩
+  | some r =>
+    obtain ⟨n, b, rfl⟩ := hx.2.2.1 _ _ hc
+    cases b with
+    | true => exact ⟨S, Grows.refl S, hk, setGlobalErr_ok Gg hg hgl _ _, rfl, fun t ht => by cases ht; exact .num _⟩
+    | false =>
+      simp only
+      cases hq : ext.call "quote" [XArg.str x] with
+      | some q => exact ⟨S, Grows.refl S, hk, setGlobalErr_ok Gg hg hgl _ _, rfl, fun t ht => by cases ht; exact .num _⟩
+      | none =>
+        exact ⟨S, Grows.refl S, hk,
+          setGlobalErr_ok Gg hg (st := { st with misses := ("quote", [XArg.str x]) :: st.misses, stopped := true }) hgl _ _, rfl,
+          fun t ht => by cases ht; exact .num _⟩
+
+theorem bi_move (hx : ExtOk ext) (hg : GgOk Gg) (tys : List Ty) (vs : List (Val F)) (st : St F) (S : Store)
+    (hle : (⟨[isNumT, isNumT], none, none⟩ : BSig).params.length ≤ vs.length)
+    (hfix : (⟨[isNumT, isNumT], none, none⟩ : BSig).rest = none → vs.length = (⟨[isNumT, isNumT], none, none⟩ : BSig).params.length)
+    (hz : PZ tys S vs) (hpred : ∀ (i : Nat) ta, tys[i]? = some ta → (⟨[isNumT, isNumT], none, none⟩ : BSig).paramAt i ta = true)
+    (hk : HeapOk S st.heap) (hgl : GlobalOk S Gg st.global) :
+    ∃ r, callBuiltin ops ext (lit "move") vs st = some r ∧ GoodBI Gg (⟨[isNumT, isNumT], none, none⟩ : BSig).ret S st r := by
+  simp [callBuiltin, isBuiltin, builtinNames, lit]
+  obtain ⟨v1, v2, t1, t2, rfl, rfl, h1, h2⟩ := two_args (hfix rfl) hz
+  have := isNumT_eq (hpred 0 t1 rfl); subst this
+  have := isNumT_eq (hpred 1 t2 rfl); subst this
+  obtain ⟨x, rfl⟩ := h1.num_inv
+  obtain ⟨y, rfl⟩ := h2.num_inv
+  simp [gfxNums, numArgs]
+  exact emit_ok Gg hk hgl _
+
+theorem bi_line (hx : ExtOk ext) (hg : GgOk Gg) (tys : List Ty) (vs : List (Val F)) (st : St F) (S : Store)
+    (hle : (⟨[isNumT, isNumT], none, none⟩ : BSig).params.length ≤ vs.length)
+    (hfix : (⟨[isNumT, isNumT], none, none⟩ : BSig).rest = none → vs.length = (⟨[isNumT, isNumT], none, none⟩ : BSig).params.length)
+    (hz : PZ tys S vs) (hpred : ∀ (i : Nat) ta, tys[i]? = some ta → (⟨[isNumT, isNumT], none, none⟩ : BSig).paramAt i ta = true)
+    (hk : HeapOk S st.heap) (hgl : GlobalOk S Gg st.global) :
+    ∃ r, callBuiltin ops ext (lit "line") vs st = some r ∧ GoodBI Gg (⟨[isNumT, isNumT], none, none⟩ : BSig).ret S st r := by
+  simp [callBuiltin, isBuiltin, builtinNames, lit]
+  obtain ⟨v1, v2, t1, t2, rfl, rfl, h1, h2⟩ := two_args (hfix rfl) hz
+  have := isNumT_eq (hpred 0 t1 rfl); subst this
+  have := isNumT_eq (hpred 1 t2 rfl); subst this
+  obtain ⟨x, rfl⟩ := h1.num_inv
+  obtain ⟨y, rfl⟩ := h2.num_inv
+  simp [gfxNums, numArgs]
+  exact emit_ok Gg hk hgl _
+
+theorem bi_rect (hx : ExtOk ext) (hg : GgOk Gg) (tys : List Ty) (vs : List (Val F)) (st : St F) (S : Store)
+    (hle : (⟨[isNumT, isNumT], none, none⟩ : BSig).params.length ≤ vs.length)
+    (hfix : (⟨[isNumT, isNumT], none, none⟩ : BSig).rest = none → vs.length = (⟨[isNumT, isNumT], none, none⟩ : BSig).params.length)
+    (hz : PZ tys S vs) (hpred : ∀ (i : Nat) ta, tys[i]? = some ta → (⟨[isNumT, isNumT], none, none⟩ : BSig).paramAt i ta = true)
+    (hk : HeapOk S st.heap) (hgl : GlobalOk S Gg st.global) :
+    ∃ r, callBuiltin ops ext (lit "rect") vs st = some r ∧ GoodBI Gg (⟨[isNumT, isNumT], none, none⟩ : BSig).ret S st r := by
+  simp [callBuiltin, isBuiltin, builtinNames, lit]
+  obtain ⟨v1, v2, t1, t2, rfl, rfl, h1, h2⟩ := two_args (hfix rfl) hz
+  have := isNumT_eq (hpred 0 t1 rfl); subst this
+  have := isNumT_eq (hpred 1 t2 rfl); subst this
+  obtain ⟨x, rfl⟩ := h1.num_inv
+  obtain ⟨y, rfl⟩ := h2.num_inv
+  simp [gfxNums, numArgs]
+  exact emit_ok Gg hk hgl _
+
+theorem bi_circle (hx : ExtOk ext) (hg : GgOk Gg) (tys : List Ty) (vs : List (Val F)) (st : St F) (S : Store)
+    (hle : (⟨[isNumT], none, none⟩ : BSig).params.length ≤ vs.length)
+    (hfix : (⟨[isNumT], none, none⟩ : BSig).rest = none → vs.length = (⟨[isNumT], none, none⟩ : BSig).params.length)
+    (hz : PZ tys S vs) (hpred : ∀ (i : Nat) ta, tys[i]? = some ta → (⟨[isNumT], none, none⟩ : BSig).paramAt i ta = true)
+    (hk : HeapOk S st.heap) (hgl : GlobalOk S Gg st.global) :
+    ∃ r, callBuiltin ops ext (lit "circle") vs st = some r ∧ GoodBI Gg (⟨[isNumT], none, none⟩ : BSig).ret S st r := by
+  simp [callBuiltin, isBuiltin, builtinNames, lit]
+  obtain ⟨v, t, rfl, rfl, hv⟩ := one_arg (hfix rfl) hz
+  have := isNumT_eq (hpred 0 t rfl); subst this
+  obtain ⟨x, rfl⟩ := hv.num_inv
+  simp [gfxNums, numArgs]
+  exact emit_ok Gg hk hgl _
+
+theorem bi_width (hx : ExtOk ext) (hg : GgOk Gg) (tys : List Ty) (vs : List (Val F)) (st : St F) (S : Store)
+    (hle : (⟨[isNumT], none, none⟩ : BSig).params.length ≤ vs.length)
+    (hfix : (⟨[isNumT], none, none⟩ : BSig).rest = none → vs.length = (⟨[isNumT], none, none⟩ : BSig).params.length)
+    (hz : PZ tys S vs) (hpred : ∀ (i : Nat) ta, tys[i]? = some ta → (⟨[isNumT], none, none⟩ : BSig).paramAt i ta = true)
+    (hk : HeapOk S st.heap) (hgl : GlobalOk S Gg st.global) :
+    ∃ r, callBuiltin ops ext (lit "width") vs st = some r ∧ GoodBI Gg (⟨[isNumT], none, none⟩ : BSig).ret S st r := by
+  simp [callBuiltin, isBuiltin, builtinNames, lit]
+  obtain ⟨v, t, rfl, rfl, hv⟩ := one_arg (hfix rfl) hz
+  have := isNumT_eq (hpred 0 t rfl); subst this
+  obtain ⟨x, rfl⟩ := hv.num_inv
+  simp [gfxNums, numArgs]
+  exact emit_ok Gg hk hgl _
+
+theorem bi_color (hx : ExtOk ext) (hg : GgOk Gg) (tys : List Ty) (vs : List (Val F)) (st : St F) (S : Store)
+    (hle : (⟨[isStrT], none, none⟩ : BSig).params.length ≤ vs.length)
+    (hfix : (⟨[isStrT], none, none⟩ : BSig).rest = none → vs.length = (⟨[isStrT], none, none⟩ : BSig).params.length)
+    (hz : PZ tys S vs) (hpred : ∀ (i : Nat) ta, tys[i]? = some ta → (⟨[isStrT], none, none⟩ : BSig).paramAt i ta = true)
+    (hk : HeapOk S st.heap) (hgl : GlobalOk S Gg st.global) :
+    ∃ r, callBuiltin ops ext (lit "color") vs st = some r ∧ GoodBI Gg (⟨[isStrT], none, none⟩ : BSig).ret S st r := by
+  simp [callBuiltin, isBuiltin, builtinNames, lit]
+  obtain ⟨v, t, rfl, rfl, hv⟩ := one_arg (hfix rfl) hz
+  have := isStrT_eq (hpred 0 t rfl); subst this
+  obtain ⟨x, rfl⟩ := hv.str_inv
+  simp [gfxStr]
+  exact emit_ok Gg hk hgl _
+
+theorem bi_colour (hx : ExtOk ext) (hg : GgOk Gg) (tys : List Ty) (vs : List (Val F)) (st : St F) (S : Store)
+    (hle : (⟨[isStrT], none, none⟩ : BSig).params.length ≤ vs.length)
+    (hfix : (⟨[isStrT], none, none⟩ : BSig).rest = none → vs.length = (⟨[isStrT], none, none⟩ : BSig).params.length)
+    (hz : PZ tys S vs) (hpred : ∀ (i : Nat) ta, tys[i]? = some ta → (⟨[isStrT], none, none⟩ : BSig).paramAt i ta = true)
+    (hk : HeapOk S st.heap) (hgl : GlobalOk S Gg st.global) :
+    ∃ r, callBuiltin ops ext (lit "colour") vs st = some r ∧ GoodBI Gg (⟨[isStrT], none, none⟩ : BSig).ret S st r := by
+  simp [callBuiltin, isBuiltin, builtinNames, lit]
+  obtain ⟨v, t, rfl, rfl, hv⟩ := one_arg (hfix rfl) hz
+  have := isStrT_eq (hpred 0 t rfl); subst this
+  obtain ⟨x, rfl⟩ := hv.str_inv
+  simp [gfxStr]
+  exact emit_ok Gg hk hgl _
+
+theorem bi_stroke (hx : ExtOk ext) (hg : GgOk Gg) (tys : List Ty) (vs : List (Val F)) (st : St F) (S : Store)
+    (hle : (⟨[isStrT], none, none⟩ : BSig).params.length ≤ vs.length)
+    (hfix : (⟨[isStrT], none, none⟩ : BSig).rest = none → vs.length = (⟨[isStrT], none, none⟩ : BSig).params.length)
+    (hz : PZ tys S vs) (hpred : ∀ (i : Nat) ta, tys[i]? = some ta → (⟨[isStrT], none, none⟩ : BSig).paramAt i ta = true)
+    (hk : HeapOk S st.heap) (hgl : GlobalOk S Gg st.global) :
+    ∃ r, callBuiltin ops ext (lit "stroke") vs st = some r ∧ GoodBI Gg (⟨[isStrT], none, none⟩ : BSig).ret S st r := by
+  simp [callBuiltin, isBuiltin, builtinNames, lit]
+  obtain ⟨v, t, rfl, rfl, hv⟩ := one_arg (hfix rfl) hz
+  have := isStrT_eq (hpred 0 t rfl); subst this
+  obtain ⟨x, rfl⟩ := hv.str_inv
+  simp [gfxStr]
+  exact emit_ok Gg hk hgl _
+
+theorem bi_fill (hx : ExtOk ext) (hg : GgOk Gg) (tys : List Ty) (vs : List (Val F)) (st : St F) (S : Store)
+    (hle : (⟨[isStrT], none, none⟩ : BSig).params.length ≤ vs.length)
+    (hfix : (⟨[isStrT], none, none⟩ : BSig).rest = none → vs.length = (⟨[isStrT], none, none⟩ : BSig).params.length)
+    (hz : PZ tys S vs) (hpred : ∀ (i : Nat) ta, tys[i]? = some ta → (⟨[isStrT], none, none⟩ : BSig).paramAt i ta = true)
+    (hk : HeapOk S st.heap) (hgl : GlobalOk S Gg st.global) :
+    ∃ r, callBuiltin ops ext (lit "fill") vs st = some r ∧ GoodBI Gg (⟨[isStrT], none, none⟩ : BSig).ret S st r := by
+  simp [callBuiltin, isBuiltin, builtinNames, lit]
+  obtain ⟨v, t, rfl, rfl, hv⟩ := one_arg (hfix rfl) hz
+  have := isStrT_eq (hpred 0 t rfl); subst this
+  obtain ⟨x, rfl⟩ := hv.str_inv
+  simp [gfxStr]
+  exact emit_ok Gg hk hgl _
+
+theorem bi_linecap (hx : ExtOk ext) (hg : GgOk Gg) (tys : List Ty) (vs : List (Val F)) (st : St F) (S : Store)
+    (hle : (⟨[isStrT], none, none⟩ : BSig).params.length ≤ vs.length)
+    (hfix : (⟨[isStrT], none, none⟩ : BSig).rest = none → vs.length = (⟨[isStrT], none, none⟩ : BSig).params.length)
+    (hz : PZ tys S vs) (hpred : ∀ (i : Nat) ta, tys[i]? = some ta → (⟨[isStrT], none, none⟩ : BSig).paramAt i ta = true)
+    (hk : HeapOk S st.heap) (hgl : GlobalOk S Gg st.global) :
+    ∃ r, callBuiltin ops ext (lit "linecap") vs st = some r ∧ GoodBI Gg (⟨[isStrT], none, none⟩ : BSig).ret S st r := by
+  simp [callBuiltin, isBuiltin, builtinNames, lit]
+  obtain ⟨v, t, rfl, rfl, hv⟩ := one_arg (hfix rfl) hz
+  have := isStrT_eq (hpred 0 t rfl); subst this
+  obtain ⟨x, rfl⟩ := hv.str_inv
+  simp [gfxStr]
+  exact emit_ok Gg hk hgl _
+
+theorem bi_text (hx : ExtOk ext) (hg : GgOk Gg) (tys : List Ty) (vs : List (Val F)) (st : St F) (S : Store)
+    (hle : (⟨[isStrT], none, none⟩ : BSig).params.length ≤ vs.length)
+    (hfix : (⟨[isStrT], none, none⟩ : BSig).rest = none → vs.length = (⟨[isStrT], none, none⟩ : BSig).params.length)
+    (hz : PZ tys S vs) (hpred : ∀ (i : Nat) ta, tys[i]? = some ta → (⟨[isStrT], none, none⟩ : BSig).paramAt i ta = true)
+    (hk : HeapOk S st.heap) (hgl : GlobalOk S Gg st.global) :
+    ∃ r, callBuiltin ops ext (lit "text") vs st = some r ∧ GoodBI Gg (⟨[isStrT], none, none⟩ : BSig).ret S st r := by
+  simp [callBuiltin, isBuiltin, builtinNames, lit]
+  obtain ⟨v, t, rfl, rfl, hv⟩ := one_arg (hfix rfl) hz
+  have := isStrT_eq (hpred 0 t rfl); subst this
+  obtain ⟨x, rfl⟩ := hv.str_inv
+  simp [gfxStr]
+  exact emit_ok Gg hk hgl _
+
+theorem bi_clear (hx : ExtOk ext) (hg : GgOk Gg) (tys : List Ty) (vs : List (Val F)) (st : St F) (S : Store)
+    (hle : (⟨[], some isStrT, none⟩ : BSig).params.length ≤ vs.length)
+    (hfix : (⟨[], some isStrT, none⟩ : BSig).rest = none → vs.length = (⟨[], some isStrT, none⟩ : BSig).params.length)
+    (hz : PZ tys S vs) (hpred : ∀ (i : Nat) ta, tys[i]? = some ta → (⟨[], some isStrT, none⟩ : BSig).paramAt i ta = true)
+    (hk : HeapOk S st.heap) (hgl : GlobalOk S Gg st.global) :
+    ∃ r, callBuiltin ops ext (lit "clear") vs st = some r ∧ GoodBI Gg (⟨[], some isStrT, none⟩ : BSig).ret S st r := by
+  simp [callBuiltin, isBuiltin, builtinNames, lit]
+  have hall := rest_typed hz isStrT (fun i ta h => by simpa [BSig.paramAt] using hpred i ta h)
+  match vs, hall with
+  | [], _ => exact emit_ok Gg hk hgl _
+  | [v], hall =>
+    obtain ⟨t, hv, ht⟩ := hall v List.mem_cons_self
+    have := isStrT_eq ht; subst this
+    obtain ⟨x, rfl⟩ := hv.str_inv
+    exact emit_ok Gg hk hgl _
+  | _ :: _ :: _, _ => exact (by simp [badArgs, GoodBI, Doc])
+
+theorem bi_grid (hx : ExtOk ext) (hg : GgOk Gg) (tys : List Ty) (vs : List (Val F)) (st : St F) (S : Store)
+    (hle : (⟨[], none, none⟩ : BSig).params.length ≤ vs.length)
+    (hfix : (⟨[], none, none⟩ : BSig).rest = none → vs.length = (⟨[], none, none⟩ : BSig).params.length)
+    (hz : PZ tys S vs) (hpred : ∀ (i : Nat) ta, tys[i]? = some ta → (⟨[], none, none⟩ : BSig).paramAt i ta = true)
+    (hk : HeapOk S st.heap) (hgl : GlobalOk S Gg st.global) :
+    ∃ r, callBuiltin ops ext (lit "grid") vs st = some r ∧ GoodBI Gg (⟨[], none, none⟩ : BSig).ret S st r := by
+  simp [callBuiltin, isBuiltin, builtinNames, lit]
+  exact emit_ok Gg hk hgl _
+
+theorem bi_gridn (hx : ExtOk ext) (hg : GgOk Gg) (tys : List Ty) (vs : List (Val F)) (st : St F) (S : Store)
+    (hle : (⟨[isNumT, isStrT], none, none⟩ : BSig).params.length ≤ vs.length)
+    (hfix : (⟨[isNumT, isStrT], none, none⟩ : BSig).rest = none → vs.length = (⟨[isNumT, isStrT], none, none⟩ : BSig).params.length)
+    (hz : PZ tys S vs) (hpred : ∀ (i : Nat) ta, tys[i]? = some ta → (⟨[isNumT, isStrT], none, none⟩ : BSig).paramAt i ta = true)
+    (hk : HeapOk S st.heap) (hgl : GlobalOk S Gg st.global) :
+    ∃ r, callBuiltin ops ext (lit "gridn") vs st = some r ∧ GoodBI Gg (⟨[isNumT, isStrT], none, none⟩ : BSig).ret S st r := by
+  simp [callBuiltin, isBuiltin, builtinNames, lit]
+  obtain ⟨v1, v2, t1, t2, rfl, rfl, h1, h2⟩ := two_args (hfix rfl) hz
+  have := isNumT_eq (hpred 0 t1 rfl); subst this
+  have := isStrT_eq (hpred 1 t2 rfl); subst this
+  obtain ⟨x, rfl⟩ := h1.num_inv
+  obtain ⟨y, rfl⟩ := h2.str_inv
+  simp only
+  split
+  · exact trivial
+  · exact emit_ok Gg hk hgl _
+
+theorem bi_dash (hx : ExtOk ext) (hg : GgOk Gg) (tys : List Ty) (vs : List (Val F)) (st : St F) (S : Store)
+    (hle : (⟨[], some isNumT, none⟩ : BSig).params.length ≤ vs.length)
+    (hfix : (⟨[], some isNumT, none⟩ : BSig).rest = none → vs.length = (⟨[], some isNumT, none⟩ : BSig).params.length)
+    (hz : PZ tys S vs) (hpred : ∀ (i : Nat) ta, tys[i]? = some ta → (⟨[], some isNumT, none⟩ : BSig).paramAt i ta = true)
+    (hk : HeapOk S st.heap) (hgl : GlobalOk S Gg st.global) :
+    ∃ r, callBuiltin ops ext (lit "dash") vs st = some r ∧ GoodBI Gg (⟨[], some isNumT, none⟩ : BSig).ret S st r := by
+  simp [callBuiltin, isBuiltin, builtinNames, lit]
+  obtain ⟨ns, hns⟩ := numArgs_typed vs (rest_typed hz isNumT (fun i ta h => by simpa [BSig.paramAt] using hpred i ta h))
+  simp only [hns]
+  exact emit_ok Gg hk hgl _
+
+theorem bi_ellipse (hx : ExtOk ext) (hg : GgOk Gg) (tys : List Ty) (vs : List (Val F)) (st : St F) (S : Store)
+    (hle : (⟨[], some isNumT, none⟩ : BSig).params.length ≤ vs.length)
+    (hfix : (⟨[], some isNumT, none⟩ : BSig).rest = none → vs.length = (⟨[], some isNumT, none⟩ : BSig).params.length)
+    (hz : PZ tys S vs) (hpred : ∀ (i : Nat) ta, tys[i]? = some ta → (⟨[], some isNumT, none⟩ : BSig).paramAt i ta = true)
+    (hk : HeapOk S st.heap) (hgl : GlobalOk S Gg st.global) :
+    ∃ r, callBuiltin ops ext (lit "ellipse") vs st = some r ∧ GoodBI Gg (⟨[], some isNumT, none⟩ : BSig).ret S st r := by
+  simp [callBuiltin, isBuiltin, builtinNames, lit]
+  obtain ⟨ns, hns⟩ := numArgs_typed vs (rest_typed hz isNumT (fun i ta h => by simpa [BSig.paramAt] using hpred i ta h))
+  simp only [hns]
+  split
+  · exact trivial
+  · split
+    · exact emit_ok Gg hk hgl _
+    · exact trivial
+
+theorem bi_hsl (hx : ExtOk ext) (hg : GgOk Gg) (tys : List Ty) (vs : List (Val F)) (st : St F) (S : Store)
+    (hle : (⟨[], some isNumT, some .str⟩ : BSig).params.length ≤ vs.length)
+    (hfix : (⟨[], some isNumT, some .str⟩ : BSig).rest = none → vs.length = (⟨[], some isNumT, some .str⟩ : BSig).params.length)
+    (hz : PZ tys S vs) (hpred : ∀ (i : Nat) ta, tys[i]? = some ta → (⟨[], some isNumT, some .str⟩ : BSig).paramAt i ta = true)
+    (hk : HeapOk S st.heap) (hgl : GlobalOk S Gg st.global) :
+    ∃ r, callBuiltin ops ext (lit "hsl") vs st = some r ∧ GoodBI Gg (⟨[], some isNumT, some .str⟩ : BSig).ret S st r := by
+  simp [callBuiltin, isBuiltin, builtinNames, lit]
+  obtain ⟨ns, hns⟩ := numArgs_typed vs (rest_typed hz isNumT (fun i ta h => by simpa [BSig.paramAt] using hpred i ta h))
+  simp only [hns]
+  split
+  · exact trivial
+  · split
+    · exact forward_str ext Gg hx hk hgl _ (by simp [strFns]) _ _
+    · exact trivial
+
+theorem bi_printf (hx : ExtOk ext) (hg : GgOk Gg) (tys : List Ty) (vs : List (Val F)) (st : St F) (S : Store)
+    (hle : (⟨[isAnyT], some (fun _ => true), none⟩ : BSig).params.length ≤ vs.length)
+    (hfix : (⟨[isAnyT], some (fun _ => true), none⟩ : BSig).rest = none → vs.length = (⟨[isAnyT], some (fun _ => true), none⟩ : BSig).params.length)
+    (hz : PZ tys S vs) (hpred : ∀ (i : Nat) ta, tys[i]? = some ta → (⟨[isAnyT], some (fun _ => true), none⟩ : BSig).paramAt i ta = true)
+    (hk : HeapOk S st.heap) (hgl : GlobalOk S Gg st.global) :
+    ∃ r, callBuiltin ops ext (lit "printf") vs st = some r ∧ GoodBI Gg (⟨[isAnyT], some (fun _ => true), none⟩ : BSig).ret S st r := by
+  simp [callBuiltin, isBuiltin, builtinNames, lit]
+  obtain ⟨hlen, hp⟩ := hz
+  match vs, tys, hle, hlen, hp, hpred with
+  | v :: rest, t :: ts, _, _, hp, hpred =>
+    have hv : VT S v t := hp 0 v t rfl rfl
+    have := isAnyT_eq (hpred 0 t rfl); subst this
+    obtain ⟨t', w, rfl, _, hw⟩ := hv.any_inv
+    cases hw with
+    | str f =>
+      simp only
+      cases unwrapAll ops st rest with
+      | none => exact trivial
+      | some xs =>
+        simp only [callExt]
+        cases ext.call "sprintf" (XArg.str f :: xs) with
+        | some r => exact ⟨S, Grows.refl S, hk, hgl, rfl, by intro t ht; cases ht⟩
+        | none => exact ⟨S, Grows.refl S, hk, hgl, rfl, by intro t ht; cases ht⟩
+    | num x => exact trivial
+    | bool x => exact trivial
+    | any t1 v1 hne h1 => exact trivial
+    | arr a s ha => exact trivial
+    | map a s ha => exact trivial
+
+theorem bi_sprintf (hx : ExtOk ext) (hg : GgOk Gg) (tys : List Ty) (vs : List (Val F)) (st : St F) (S : Store)
+    (hle : (⟨[isAnyT], some (fun _ => true), some .str⟩ : BSig).params.length ≤ vs.length)
+    (hfix : (⟨[isAnyT], some (fun _ => true), some .str⟩ : BSig).rest = none → vs.length = (⟨[isAnyT], some (fun _ => true), some .str⟩ : BSig).params.length)
+    (hz : PZ tys S vs) (hpred : ∀ (i : Nat) ta, tys[i]? = some ta → (⟨[isAnyT], some (fun _ => true), some .str⟩ : BSig).paramAt i ta = true)
+    (hk : HeapOk S st.heap) (hgl : GlobalOk S Gg st.global) :
+    ∃ r, callBuiltin ops ext (lit "sprintf") vs st = some r ∧ GoodBI Gg (⟨[isAnyT], some (fun _ => true), some .str⟩ : BSig).ret S st r := by
+  simp [callBuiltin, isBuiltin, builtinNames, lit]
+  obtain ⟨hlen, hp⟩ := hz
+  match vs, tys, hle, hlen, hp, hpred with
+  | v :: rest, t :: ts, _, _, hp, hpred =>
+    have hv : VT S v t := hp 0 v t rfl rfl
+    have := isAnyT_eq (hpred 0 t rfl); subst this
+    obtain ⟨t', w, rfl, _, hw⟩ := hv.any_inv
+    cases hw with
+    | str f =>
+      simp only
+      cases unwrapAll ops st rest with
+      | none => exact trivial
+      | some xs =>
+        simp only [callExt]
+        cases ext.call "sprintf" (XArg.str f :: xs) with
+        | some r => exact ⟨S, Grows.refl S, hk, hgl, rfl, fun t ht => by cases ht; exact .str _⟩
+        | none => exact ⟨S, Grows.refl S, hk, hgl, rfl, fun t ht => by cases ht; exact .str _⟩
+    | num x => exact trivial
+    | bool x => exact trivial
+    | any t1 v1 hne h1 => exact trivial
+    | arr a s ha => exact trivial
+    | map a s ha => exact trivial
+
+theorem bi_repr (hx : ExtOk ext) (hg : GgOk Gg) (tys : List Ty) (vs : List (Val F)) (st : St F) (S : Store)
+    (hle : (⟨[], some (fun _ => true), some .str⟩ : BSig).params.length ≤ vs.length)
+    (hfix : (⟨[], some (fun _ => true), some .str⟩ : BSig).rest = none → vs.length = (⟨[], some (fun _ => true), some .str⟩ : BSig).params.length)
+    (hz : PZ tys S vs) (hpred : ∀ (i : Nat) ta, tys[i]? = some ta → (⟨[], some (fun _ => true), some .str⟩ : BSig).paramAt i ta = true)
+    (hk : HeapOk S st.heap) (hgl : GlobalOk S Gg st.global) :
+    ∃ r, callBuiltin ops ext (lit "repr") vs st = some r ∧ GoodBI Gg (⟨[], some (fun _ => true), some .str⟩ : BSig).ret S st r := by
+  simp [callBuiltin, isBuiltin, builtinNames, lit]
+  cases reprList ops ext st.heap (auxFuel st) vs with
+  | none => exact trivial
+  | some r => obtain ⟨l, ms⟩ := r; exact ⟨S, Grows.refl S, hk, hgl, rfl, fun t ht => by cases ht; exact .str _⟩
+
+theorem bi_split (hx : ExtOk ext) (hg : GgOk Gg) (tys : List Ty) (vs : List (Val F)) (st : St F) (S : Store)
+    (hle : (⟨[isStrT, isStrT], none, some (.arr .str)⟩ : BSig).params.length ≤ vs.length)
+    (hfix : (⟨[isStrT, isStrT], none, some (.arr .str)⟩ : BSig).rest = none → vs.length = (⟨[isStrT, isStrT], none, some (.arr .str)⟩ : BSig).params.length)
+    (hz : PZ tys S vs) (hpred : ∀ (i : Nat) ta, tys[i]? = some ta → (⟨[isStrT, isStrT], none, some (.arr .str)⟩ : BSig).paramAt i ta = true)
+    (hk : HeapOk S st.heap) (hgl : GlobalOk S Gg st.global) :
+    ∃ r, callBuiltin ops ext (lit "split") vs st = some r ∧ GoodBI Gg (⟨[isStrT, isStrT], none, some (.arr .str)⟩ : BSig).ret S st r := by
+  simp [callBuiltin, isBuiltin, builtinNames, lit]
+  obtain ⟨v1, v2, t1, t2, rfl, rfl, h1, h2⟩ := two_args (hfix rfl) hz
+  have := isStrT_eq (hpred 0 t1 rfl); subst this
+  have := isStrT_eq (hpred 1 t2 rfl); subst this
+  obtain ⟨x, rfl⟩ := h1.str_inv
+  obtain ⟨y, rfl⟩ := h2.str_inv
+  simp only [callExt]
+  have fin : ∀ (l : List Str) (st1 : St F), st1.heap = st.heap → st1.global = st.global → st1.locals = st.locals →
+      GoodBI Gg (some (.arr .str)) S st (.ok (Val.arr (alloc st1 (.arr (l.map Val.str))).1) (alloc st1 (.arr (l.map Val.str))).2) := by
+    intro l st1 e1 e2 e3
+    have hk1 : HeapOk S st1.heap := by rw [e1]; exact hk
+    obtain ⟨hk', vt⟩ := hk1.push_arr .str rfl (l.map Val.str) (by intro v hv; obtain ⟨z, _, rfl⟩ := List.mem_map.mp hv; exact .str z)
+    exact ⟨_, Grows.snoc S _, hk', by simp only [alloc, e2]; exact hgl.mono (Grows.snoc S _), by simp only [alloc, e3], fun t ht => by cases ht; exact vt⟩
+  cases hc : ext.call "split" [XArg.str x, XArg.str y] with
+  | none => exact fin [] _ rfl rfl rfl
+  | some r =>
+    obtain ⟨l, rfl⟩ := hx.2.2.2 _ _ hc
+    exact fin l st rfl rfl rfl
+
+theorem bi_rand (hx : ExtOk ext) (hg : GgOk Gg) (tys : List Ty) (vs : List (Val F)) (st : St F) (S : Store)
+    (hle : (⟨[isNumT], none, some .num⟩ : BSig).params.length ≤ vs.length)
+    (hfix : (⟨[isNumT], none, some .num⟩ : BSig).rest = none → vs.length = (⟨[isNumT], none, some .num⟩ : BSig).params.length)
+    (hz : PZ tys S vs) (hpred : ∀ (i : Nat) ta, tys[i]? = some ta → (⟨[isNumT], none, some .num⟩ : BSig).paramAt i ta = true)
+    (hk : HeapOk S st.heap) (hgl : GlobalOk S Gg st.global) :
+    ∃ r, callBuiltin ops ext (lit "rand") vs st = some r ∧ GoodBI Gg (⟨[isNumT], none, some .num⟩ : BSig).ret S st r := by
+  simp [callBuiltin, isBuiltin, builtinNames, lit]
+  obtain ⟨v, t, rfl, rfl, hv⟩ := one_arg (hfix rfl) hz
+  have := isNumT_eq (hpred 0 t rfl); subst this
+  obtain ⟨u, rfl⟩ := hv.num_inv
+  simp only
+  split
+  · exact trivial
+  · simp only [callExt]
+    cases hc : ext.call "rand" (st.randLog ++ [XArg.num u]) with
+    | none => exact ⟨S, Grows.refl S, hk, hgl, rfl, fun t ht => by cases ht; exact .num _⟩
+    | some r =>
+      obtain ⟨w, rfl⟩ := hx.1 "rand" (by simp [numFns]) _ _ hc
+      exact ⟨S, Grows.refl S, hk, hgl, rfl, fun t ht => by cases ht; exact .num _⟩
+
+theorem bi_rand1 (hx : ExtOk ext) (hg : GgOk Gg) (tys : List Ty) (vs : List (Val F)) (st : St F) (S : Store)
+    (hle : (⟨[], none, some .num⟩ : BSig).params.length ≤ vs.length)
+    (hfix : (⟨[], none, some .num⟩ : BSig).rest = none → vs.length = (⟨[], none, some .num⟩ : BSig).params.length)
+    (hz : PZ tys S vs) (hpred : ∀ (i : Nat) ta, tys[i]? = some ta → (⟨[], none, some .num⟩ : BSig).paramAt i ta = true)
+    (hk : HeapOk S st.heap) (hgl : GlobalOk S Gg st.global) :
+    ∃ r, callBuiltin ops ext (lit "rand1") vs st = some r ∧ GoodBI Gg (⟨[], none, some .num⟩ : BSig).ret S st r := by
+  simp [callBuiltin, isBuiltin, builtinNames, lit]
+  simp only [callExt]
+  cases hc : ext.call "rand" (st.randLog ++ [XArg.bool true]) with
+  | none => exact ⟨S, Grows.refl S, hk, hgl, rfl, fun t ht => by cases ht; exact .num _⟩
+  | some r =>
+    obtain ⟨w, rfl⟩ := hx.1 "rand" (by simp [numFns]) _ _ hc
+    exact ⟨S, Grows.refl S, hk, hgl, rfl, fun t ht => by cases ht; exact .num _⟩
+
 /-- **the built-ins of the typed fragment on well-typed arguments** -/
 theorem builtin_ok (hx : ExtOk ext) (hg : GgOk Gg) (name : Str) (sig : BSig) (tys : List Ty) (vs : List (Val F)) (st : St F) (S : Store)
     (hs : builtinSig name = some sig) (hle : sig.params.length ≤ vs.length) (hfix : sig.rest = none → vs.length = sig.params.length)
     (hz : PZ tys S vs) (hpred : ∀ (i : Nat) ta, tys[i]? = some ta → sig.paramAt i ta = true)
     (hk : HeapOk S st.heap) (hgl : GlobalOk S Gg st.global) :
     String.ofList name ≠ "test" ∧ ∃ r, callBuiltin ops ext name vs st = some r ∧ GoodBI Gg sig.ret S st r := by
-  unfold builtinSig at hs
   by_cases hn_len : name = lit "len"
-  · rw [if_pos hn_len] at hs; subst hn_len; simp at hs; subst hs
-    refine ⟨by decide, ?_⟩
-    simp [callBuiltin, isBuiltin, builtinNames, lit]
-    obtain ⟨v, t, rfl, rfl, hv⟩ := one_arg (hfix rfl) hz
-    have := isAnyT_eq (hpred 0 t rfl); subst this
-    obtain ⟨t', w, rfl, _, hw⟩ := hv.any_inv
-    cases hw with
-    | str x => exact same_state Gg hk hgl _ _ (fun t ht => by cases ht; exact .num _)
-    | arr a s ha =>
-      obtain ⟨es, he, _⟩ := hk.arr a s ha
-      simp only [heapGet, he]
-      exact same_state Gg hk hgl _ _ (fun t ht => by cases ht; exact .num _)
-    | map a s ha =>
-      obtain ⟨m, he, _⟩ := hk.map a s ha
-      simp only [heapGet, he]
-      exact same_state Gg hk hgl _ _ (fun t ht => by cases ht; exact .num _)
-    | num x => exact trivial
-    | bool x => exact trivial
-    | any t1 v1 hne h1 => exact trivial
-  rw [if_neg hn_len] at hs
+  · have hs' : sig = ⟨[isAnyT], none, some .num⟩ := by simp [builtinSig, hn_len, lit] at hs; exact hs.symm
+    subst hs'; subst hn_len
+    exact ⟨by decide, bi_len ops ext Gg hx hg tys vs st S hle hfix hz hpred hk hgl⟩
   by_cases hn_typeof : name = lit "typeof"
-  · rw [if_pos hn_typeof] at hs; subst hn_typeof; simp at hs; subst hs
-    refine ⟨by decide, ?_⟩
-    simp [callBuiltin, isBuiltin, builtinNames, lit]
-    obtain ⟨v, t, rfl, rfl, hv⟩ := one_arg (hfix rfl) hz
-    have := isAnyT_eq (hpred 0 t rfl); subst this
-    obtain ⟨t', w, rfl, _, hw⟩ := hv.any_inv
-    exact same_state Gg hk hgl _ _ (fun t ht => by cases ht; exact .str _)
-  rw [if_neg hn_typeof] at hs
+  · have hs' : sig = ⟨[isAnyT], none, some .str⟩ := by simp [builtinSig, hn_typeof, lit] at hs; exact hs.symm
+    subst hs'; subst hn_typeof
+    exact ⟨by decide, bi_typeof ops ext Gg hx hg tys vs st S hle hfix hz hpred hk hgl⟩
   by_cases hn_has : name = lit "has"
-  · rw [if_pos hn_has] at hs; subst hn_has; simp at hs; subst hs
-    refine ⟨by decide, ?_⟩
-    simp [callBuiltin, isBuiltin, builtinNames, lit]
-    obtain ⟨v1, v2, t1, t2, rfl, rfl, h1, h2⟩ := two_args (hfix rfl) hz
-    obtain ⟨s, rfl⟩ := isMapT_eq (hpred 0 t1 rfl)
-    have := isStrT_eq (hpred 1 t2 rfl); subst this
-    obtain ⟨a, rfl, ha⟩ := h1.map_inv
-    obtain ⟨k, rfl⟩ := h2.str_inv
-    obtain ⟨m, he, _⟩ := hk.map a s ha
-    simp only [heapGet, he]
-    exact same_state Gg hk hgl _ _ (fun t ht => by cases ht; exact .bool _)
-  rw [if_neg hn_has] at hs
+  · have hs' : sig = ⟨[isMapT, isStrT], none, some .bool⟩ := by simp [builtinSig, hn_has, lit] at hs; exact hs.symm
+    subst hs'; subst hn_has
+    exact ⟨by decide, bi_has ops ext Gg hx hg tys vs st S hle hfix hz hpred hk hgl⟩
   by_cases hn_del : name = lit "del"
-  · rw [if_pos hn_del] at hs; subst hn_del; simp at hs; subst hs
-    refine ⟨by decide, ?_⟩
-    simp [callBuiltin, isBuiltin, builtinNames, lit]
-    obtain ⟨v1, v2, t1, t2, rfl, rfl, h1, h2⟩ := two_args (hfix rfl) hz
-    obtain ⟨s, rfl⟩ := isMapT_eq (hpred 0 t1 rfl)
-    have := isStrT_eq (hpred 1 t2 rfl); subst this
-    obtain ⟨a, rfl, ha⟩ := h1.map_inv
-    obtain ⟨k, rfl⟩ := h2.str_inv
-    obtain ⟨m, he, hm⟩ := hk.map a s ha
-    simp only [heapGet, he]
-    exact ⟨S, Grows.refl S, hk.set_map a s ha _ (delete_typed m k hm), hgl, rfl, by intro t ht; cases ht⟩
-  rw [if_neg hn_del] at hs
+  · have hs' : sig = ⟨[isMapT, isStrT], none, none⟩ := by simp [builtinSig, hn_del, lit] at hs; exact hs.symm
+    subst hs'; subst hn_del
+    exact ⟨by decide, bi_del ops ext Gg hx hg tys vs st S hle hfix hz hpred hk hgl⟩
   by_cases hn_str2bool : name = lit "str2bool"
-  · rw [if_pos hn_str2bool] at hs; subst hn_str2bool; simp at hs; subst hs
-    refine ⟨by decide, ?_⟩
-    simp [callBuiltin, isBuiltin, builtinNames, lit]
-    obtain ⟨v, t, rfl, rfl, hv⟩ := one_arg (hfix rfl) hz
-    have := isStrT_eq (hpred 0 t rfl); subst this
-    obtain ⟨x, rfl⟩ := hv.str_inv
-    simp only
-    cases hp : parseBool x with
-    | some b =>
-      exact ⟨S, Grows.refl S, hk, setGlobalErr_ok Gg hg hgl _ _, rfl, fun t ht => by cases ht; exact .bool _⟩
-    | none =>
-      simp only [callExt]
-      cases hq : ext.call "quote" [XArg.str x] with
-      | some q => exact ⟨S, Grows.refl S, hk, setGlobalErr_ok Gg hg hgl _ _, rfl, fun t ht => by cases ht; exact .bool _⟩
-      | none =>
-        exact ⟨S, Grows.refl S, hk,
-          setGlobalErr_ok Gg hg (st := { st with misses := ("quote", [XArg.str x]) :: st.misses, stopped := true }) hgl _ _, rfl,
-          fun t ht => by cases ht; exact .bool _⟩
-  rw [if_neg hn_str2bool] at hs
+  · have hs' : sig = ⟨[isStrT], none, some .bool⟩ := by simp [builtinSig, hn_str2bool, lit] at hs; exact hs.symm
+    subst hs'; subst hn_str2bool
+    exact ⟨by decide, bi_str2bool ops ext Gg hx hg tys vs st S hle hfix hz hpred hk hgl⟩
   by_cases hn_sprint : name = lit "sprint"
-  · rw [if_pos hn_sprint] at hs; subst hn_sprint; simp at hs; subst hs
-    refine ⟨by decide, ?_⟩
-    simp [callBuiltin, isBuiltin, builtinNames, lit]
-    cases joinVals ops st vs [' '] with
-    | none => exact trivial
-    | some str => exact same_state Gg hk hgl _ _ (fun t ht => by cases ht; exact .str _)
-  rw [if_neg hn_sprint] at hs
+  · have hs' : sig = ⟨[], some (fun _ => true), some .str⟩ := by simp [builtinSig, hn_sprint, lit] at hs; exact hs.symm
+    subst hs'; subst hn_sprint
+    exact ⟨by decide, bi_sprint ops ext Gg hx hg tys vs st S hle hfix hz hpred hk hgl⟩
   by_cases hn_join : name = lit "join"
-  · rw [if_pos hn_join] at hs; subst hn_join; simp at hs; subst hs
-    refine ⟨by decide, ?_⟩
-    simp [callBuiltin, isBuiltin, builtinNames, lit]
-    obtain ⟨v1, v2, t1, t2, rfl, rfl, h1, h2⟩ := two_args (hfix rfl) hz
-    obtain ⟨s, rfl⟩ := isArrT_eq (hpred 0 t1 rfl)
-    have := isStrT_eq (hpred 1 t2 rfl); subst this
-    obtain ⟨a, rfl, ha⟩ := h1.arr_inv
-    obtain ⟨k, rfl⟩ := h2.str_inv
-    obtain ⟨es, he, _⟩ := hk.arr a s ha
-    simp only [heapGet, he]
-    cases joinVals ops st es k with
-    | none => exact trivial
-    | some str => exact same_state Gg hk hgl _ _ (fun t ht => by cases ht; exact .str _)
-  rw [if_neg hn_join] at hs
+  · have hs' : sig = ⟨[isArrT, isStrT], none, some .str⟩ := by simp [builtinSig, hn_join, lit] at hs; exact hs.symm
+    subst hs'; subst hn_join
+    exact ⟨by decide, bi_join ops ext Gg hx hg tys vs st S hle hfix hz hpred hk hgl⟩
   by_cases hn_startswith : name = lit "startswith"
-  · rw [if_pos hn_startswith] at hs; subst hn_startswith; simp at hs; subst hs
-    refine ⟨by decide, ?_⟩
-    simp [callBuiltin, isBuiltin, builtinNames, lit]
-    obtain ⟨v1, v2, t1, t2, rfl, rfl, h1, h2⟩ := two_args (hfix rfl) hz
-    have := isStrT_eq (hpred 0 t1 rfl); subst this
-    have := isStrT_eq (hpred 1 t2 rfl); subst this
-    obtain ⟨x, rfl⟩ := h1.str_inv
-    obtain ⟨y, rfl⟩ := h2.str_inv
-    exact same_state Gg hk hgl _ _ (fun t ht => by cases ht; exact .bool _)
-  rw [if_neg hn_startswith] at hs
+  · have hs' : sig = ⟨[isStrT, isStrT], none, some .bool⟩ := by simp [builtinSig, hn_startswith, lit] at hs; exact hs.symm
+    subst hs'; subst hn_startswith
+    exact ⟨by decide, bi_startswith ops ext Gg hx hg tys vs st S hle hfix hz hpred hk hgl⟩
   by_cases hn_endswith : name = lit "endswith"
-  · rw [if_pos hn_endswith] at hs; subst hn_endswith; simp at hs; subst hs
-    refine ⟨by decide, ?_⟩
-    simp [callBuiltin, isBuiltin, builtinNames, lit]
-    obtain ⟨v1, v2, t1, t2, rfl, rfl, h1, h2⟩ := two_args (hfix rfl) hz
-    have := isStrT_eq (hpred 0 t1 rfl); subst this
-    have := isStrT_eq (hpred 1 t2 rfl); subst this
-    obtain ⟨x, rfl⟩ := h1.str_inv
-    obtain ⟨y, rfl⟩ := h2.str_inv
-    exact same_state Gg hk hgl _ _ (fun t ht => by cases ht; exact .bool _)
-  rw [if_neg hn_endswith] at hs
+  · have hs' : sig = ⟨[isStrT, isStrT], none, some .bool⟩ := by simp [builtinSig, hn_endswith, lit] at hs; exact hs.symm
+    subst hs'; subst hn_endswith
+    exact ⟨by decide, bi_endswith ops ext Gg hx hg tys vs st S hle hfix hz hpred hk hgl⟩
   by_cases hn_index : name = lit "index"
-  · rw [if_pos hn_index] at hs; subst hn_index; simp at hs; subst hs
-    refine ⟨by decide, ?_⟩
-    simp [callBuiltin, isBuiltin, builtinNames, lit]
-    obtain ⟨v1, v2, t1, t2, rfl, rfl, h1, h2⟩ := two_args (hfix rfl) hz
-    have := isStrT_eq (hpred 0 t1 rfl); subst this
-    have := isStrT_eq (hpred 1 t2 rfl); subst this
-    obtain ⟨x, rfl⟩ := h1.str_inv
-    obtain ⟨y, rfl⟩ := h2.str_inv
-    exact same_state Gg hk hgl _ _ (fun t ht => by cases ht; exact .num _)
-  rw [if_neg hn_index] at hs
+  · have hs' : sig = ⟨[isStrT, isStrT], none, some .num⟩ := by simp [builtinSig, hn_index, lit] at hs; exact hs.symm
+    subst hs'; subst hn_index
+    exact ⟨by decide, bi_index ops ext Gg hx hg tys vs st S hle hfix hz hpred hk hgl⟩
   by_cases hn_exit : name = lit "exit"
-  · rw [if_pos hn_exit] at hs; subst hn_exit; simp at hs; subst hs
-    refine ⟨by decide, ?_⟩
-    simp [callBuiltin, isBuiltin, builtinNames, lit]
-    obtain ⟨v, t, rfl, rfl, hv⟩ := one_arg (hfix rfl) hz
-    have := isNumT_eq (hpred 0 t rfl); subst this
-    obtain ⟨x, rfl⟩ := hv.num_inv
-    exact trivial
-  rw [if_neg hn_exit] at hs
+  · have hs' : sig = ⟨[isNumT], none, none⟩ := by simp [builtinSig, hn_exit, lit] at hs; exact hs.symm
+    subst hs'; subst hn_exit
+    exact ⟨by decide, bi_exit ops ext Gg hx hg tys vs st S hle hfix hz hpred hk hgl⟩
   by_cases hn_panic : name = lit "panic"
-  · rw [if_pos hn_panic] at hs; subst hn_panic; simp at hs; subst hs
-    refine ⟨by decide, ?_⟩
-    simp [callBuiltin, isBuiltin, builtinNames, lit]
-    obtain ⟨v, t, rfl, rfl, hv⟩ := one_arg (hfix rfl) hz
-    have := isStrT_eq (hpred 0 t rfl); subst this
-    obtain ⟨x, rfl⟩ := hv.str_inv
-    exact trivial
-  rw [if_neg hn_panic] at hs
+  · have hs' : sig = ⟨[isStrT], none, none⟩ := by simp [builtinSig, hn_panic, lit] at hs; exact hs.symm
+    subst hs'; subst hn_panic
+    exact ⟨by decide, bi_panic ops ext Gg hx hg tys vs st S hle hfix hz hpred hk hgl⟩
   by_cases hn_sleep : name = lit "sleep"
-  · rw [if_pos hn_sleep] at hs; subst hn_sleep; simp at hs; subst hs
-    refine ⟨by decide, ?_⟩
-    simp [callBuiltin, isBuiltin, builtinNames, lit]
-    obtain ⟨v, t, rfl, rfl, hv⟩ := one_arg (hfix rfl) hz
-    have := isNumT_eq (hpred 0 t rfl); subst this
-    obtain ⟨x, rfl⟩ := hv.num_inv
-    exact ⟨S, Grows.refl S, hk, hgl, rfl, by intro t ht; cases ht⟩
-  rw [if_neg hn_sleep] at hs
+  · have hs' : sig = ⟨[isNumT], none, none⟩ := by simp [builtinSig, hn_sleep, lit] at hs; exact hs.symm
+    subst hs'; subst hn_sleep
+    exact ⟨by decide, bi_sleep ops ext Gg hx hg tys vs st S hle hfix hz hpred hk hgl⟩
   by_cases hn_cls : name = lit "cls"
-  · rw [if_pos hn_cls] at hs; subst hn_cls; simp at hs; subst hs
-    refine ⟨by decide, ?_⟩
-    simp [callBuiltin, isBuiltin, builtinNames, lit]
-    exact ⟨S, Grows.refl S, hk, hgl, rfl, by intro t ht; cases ht⟩
-  rw [if_neg hn_cls] at hs
+  · have hs' : sig = ⟨[], none, none⟩ := by simp [builtinSig, hn_cls, lit] at hs; exact hs.symm
+    subst hs'; subst hn_cls
+    exact ⟨by decide, bi_cls ops ext Gg hx hg tys vs st S hle hfix hz hpred hk hgl⟩
   by_cases hn_read : name = lit "read"
-  · rw [if_pos hn_read] at hs; subst hn_read; simp at hs; subst hs
-    refine ⟨by decide, ?_⟩
-    simp [callBuiltin, isBuiltin, builtinNames, lit]
-    cases hi : st.input with
-    | nil => exact ⟨S, Grows.refl S, hk, hgl, rfl, fun t ht => by cases ht; exact .str _⟩
-    | cons l rest => exact ⟨S, Grows.refl S, hk, hgl, rfl, fun t ht => by cases ht; exact .str _⟩
-  rw [if_neg hn_read] at hs
+  · have hs' : sig = ⟨[], none, some .str⟩ := by simp [builtinSig, hn_read, lit] at hs; exact hs.symm
+    subst hs'; subst hn_read
+    exact ⟨by decide, bi_read ops ext Gg hx hg tys vs st S hle hfix hz hpred hk hgl⟩
   by_cases hn_abs : name = lit "abs"
-  · have hs' : sig = ⟨[isNumT], none, some .num⟩ := by simp [hn_abs, lit] at hs; exact hs.symm
+  · have hs' : sig = ⟨[isNumT], none, some .num⟩ := by simp [builtinSig, hn_abs, lit] at hs; exact hs.symm
     subst hs'; subst hn_abs
-    refine ⟨by decide, ?_⟩
-    simp [callBuiltin, isBuiltin, builtinNames, lit]
-    obtain ⟨v, t, rfl, rfl, hv⟩ := one_arg (hfix rfl) hz
-    have := isNumT_eq (hpred 0 t rfl); subst this
-    obtain ⟨x, rfl⟩ := hv.num_inv
-    exact forward_num ext Gg hx hk hgl _ (by simp [numFns]) _ _
+    exact ⟨by decide, bi_abs ops ext Gg hx hg tys vs st S hle hfix hz hpred hk hgl⟩
   by_cases hn_floor : name = lit "floor"
-  · have hs' : sig = ⟨[isNumT], none, some .num⟩ := by simp [hn_floor, lit] at hs; exact hs.symm
+  · have hs' : sig = ⟨[isNumT], none, some .num⟩ := by simp [builtinSig, hn_floor, lit] at hs; exact hs.symm
     subst hs'; subst hn_floor
-    refine ⟨by decide, ?_⟩
-    simp [callBuiltin, isBuiltin, builtinNames, lit]
-    obtain ⟨v, t, rfl, rfl, hv⟩ := one_arg (hfix rfl) hz
-    have := isNumT_eq (hpred 0 t rfl); subst this
-    obtain ⟨x, rfl⟩ := hv.num_inv
-    exact forward_num ext Gg hx hk hgl _ (by simp [numFns]) _ _
+    exact ⟨by decide, bi_floor ops ext Gg hx hg tys vs st S hle hfix hz hpred hk hgl⟩
   by_cases hn_ceil : name = lit "ceil"
-  · have hs' : sig = ⟨[isNumT], none, some .num⟩ := by simp [hn_ceil, lit] at hs; exact hs.symm
+  · have hs' : sig = ⟨[isNumT], none, some .num⟩ := by simp [builtinSig, hn_ceil, lit] at hs; exact hs.symm
     subst hs'; subst hn_ceil
-    refine ⟨by decide, ?_⟩
-    simp [callBuiltin, isBuiltin, builtinNames, lit]
-    obtain ⟨v, t, rfl, rfl, hv⟩ := one_arg (hfix rfl) hz
-    have := isNumT_eq (hpred 0 t rfl); subst this
-    obtain ⟨x, rfl⟩ := hv.num_inv
-    exact forward_num ext Gg hx hk hgl _ (by simp [numFns]) _ _
+    exact ⟨by decide, bi_ceil ops ext Gg hx hg tys vs st S hle hfix hz hpred hk hgl⟩
   by_cases hn_round : name = lit "round"
-  · have hs' : sig = ⟨[isNumT], none, some .num⟩ := by simp [hn_round, lit] at hs; exact hs.symm
+  · have hs' : sig = ⟨[isNumT], none, some .num⟩ := by simp [builtinSig, hn_round, lit] at hs; exact hs.symm
     subst hs'; subst hn_round
-    refine ⟨by decide, ?_⟩
-    simp [callBuiltin, isBuiltin, builtinNames, lit]
-    obtain ⟨v, t, rfl, rfl, hv⟩ := one_arg (hfix rfl) hz
-    have := isNumT_eq (hpred 0 t rfl); subst this
-    obtain ⟨x, rfl⟩ := hv.num_inv
-    exact forward_num ext Gg hx hk hgl _ (by simp [numFns]) _ _
+    exact ⟨by decide, bi_round ops ext Gg hx hg tys vs st S hle hfix hz hpred hk hgl⟩
   by_cases hn_log : name = lit "log"
-  · have hs' : sig = ⟨[isNumT], none, some .num⟩ := by simp [hn_log, lit] at hs; exact hs.symm
+  · have hs' : sig = ⟨[isNumT], none, some .num⟩ := by simp [builtinSig, hn_log, lit] at hs; exact hs.symm
     subst hs'; subst hn_log
-    refine ⟨by decide, ?_⟩
-    simp [callBuiltin, isBuiltin, builtinNames, lit]
-    obtain ⟨v, t, rfl, rfl, hv⟩ := one_arg (hfix rfl) hz
-    have := isNumT_eq (hpred 0 t rfl); subst this
-    obtain ⟨x, rfl⟩ := hv.num_inv
-    exact forward_num ext Gg hx hk hgl _ (by simp [numFns]) _ _
+    exact ⟨by decide, bi_log ops ext Gg hx hg tys vs st S hle hfix hz hpred hk hgl⟩
   by_cases hn_sqrt : name = lit "sqrt"
-  · have hs' : sig = ⟨[isNumT], none, some .num⟩ := by simp [hn_sqrt, lit] at hs; exact hs.symm
+  · have hs' : sig = ⟨[isNumT], none, some .num⟩ := by simp [builtinSig, hn_sqrt, lit] at hs; exact hs.symm
     subst hs'; subst hn_sqrt
-    refine ⟨by decide, ?_⟩
-    simp [callBuiltin, isBuiltin, builtinNames, lit]
-    obtain ⟨v, t, rfl, rfl, hv⟩ := one_arg (hfix rfl) hz
-    have := isNumT_eq (hpred 0 t rfl); subst this
-    obtain ⟨x, rfl⟩ := hv.num_inv
-    exact forward_num ext Gg hx hk hgl _ (by simp [numFns]) _ _
+    exact ⟨by decide, bi_sqrt ops ext Gg hx hg tys vs st S hle hfix hz hpred hk hgl⟩
   by_cases hn_sin : name = lit "sin"
-  · have hs' : sig = ⟨[isNumT], none, some .num⟩ := by simp [hn_sin, lit] at hs; exact hs.symm
+  · have hs' : sig = ⟨[isNumT], none, some .num⟩ := by simp [builtinSig, hn_sin, lit] at hs; exact hs.symm
     subst hs'; subst hn_sin
-    refine ⟨by decide, ?_⟩
-    simp [callBuiltin, isBuiltin, builtinNames, lit]
-    obtain ⟨v, t, rfl, rfl, hv⟩ := one_arg (hfix rfl) hz
-    have := isNumT_eq (hpred 0 t rfl); subst this
-    obtain ⟨x, rfl⟩ := hv.num_inv
-    exact forward_num ext Gg hx hk hgl _ (by simp [numFns]) _ _
+    exact ⟨by decide, bi_sin ops ext Gg hx hg tys vs st S hle hfix hz hpred hk hgl⟩
   by_cases hn_cos : name = lit "cos"
-  · have hs' : sig = ⟨[isNumT], none, some .num⟩ := by simp [hn_cos, lit] at hs; exact hs.symm
+  · have hs' : sig = ⟨[isNumT], none, some .num⟩ := by simp [builtinSig, hn_cos, lit] at hs; exact hs.symm
     subst hs'; subst hn_cos
-    refine ⟨by decide, ?_⟩
-    simp [callBuiltin, isBuiltin, builtinNames, lit]
-    obtain ⟨v, t, rfl, rfl, hv⟩ := one_arg (hfix rfl) hz
-    have := isNumT_eq (hpred 0 t rfl); subst this
-    obtain ⟨x, rfl⟩ := hv.num_inv
-    exact forward_num ext Gg hx hk hgl _ (by simp [numFns]) _ _
+    exact ⟨by decide, bi_cos ops ext Gg hx hg tys vs st S hle hfix hz hpred hk hgl⟩
   by_cases hn_min : name = lit "min"
-  · have hs' : sig = ⟨[isNumT, isNumT], none, some .num⟩ := by simp [hn_min, lit] at hs; exact hs.symm
+  · have hs' : sig = ⟨[isNumT, isNumT], none, some .num⟩ := by simp [builtinSig, hn_min, lit] at hs; exact hs.symm
     subst hs'; subst hn_min
-    refine ⟨by decide, ?_⟩
-    simp [callBuiltin, isBuiltin, builtinNames, lit]
-    obtain ⟨v1, v2, t1, t2, rfl, rfl, h1, h2⟩ := two_args (hfix rfl) hz
-    have := isNumT_eq (hpred 0 t1 rfl); subst this
-    have := isNumT_eq (hpred 1 t2 rfl); subst this
-    obtain ⟨x, rfl⟩ := h1.num_inv
-    obtain ⟨y, rfl⟩ := h2.num_inv
-    exact forward_num ext Gg hx hk hgl _ (by simp [numFns]) _ _
+    exact ⟨by decide, bi_min ops ext Gg hx hg tys vs st S hle hfix hz hpred hk hgl⟩
   by_cases hn_max : name = lit "max"
-  · have hs' : sig = ⟨[isNumT, isNumT], none, some .num⟩ := by simp [hn_max, lit] at hs; exact hs.symm
+  · have hs' : sig = ⟨[isNumT, isNumT], none, some .num⟩ := by simp [builtinSig, hn_max, lit] at hs; exact hs.symm
     subst hs'; subst hn_max
-    refine ⟨by decide, ?_⟩
-    simp [callBuiltin, isBuiltin, builtinNames, lit]
-    obtain ⟨v1, v2, t1, t2, rfl, rfl, h1, h2⟩ := two_args (hfix rfl) hz
-    have := isNumT_eq (hpred 0 t1 rfl); subst this
-    have := isNumT_eq (hpred 1 t2 rfl); subst this
-    obtain ⟨x, rfl⟩ := h1.num_inv
-    obtain ⟨y, rfl⟩ := h2.num_inv
-    exact forward_num ext Gg hx hk hgl _ (by simp [numFns]) _ _
+    exact ⟨by decide, bi_max ops ext Gg hx hg tys vs st S hle hfix hz hpred hk hgl⟩
   by_cases hn_pow : name = lit "pow"
-  · have hs' : sig = ⟨[isNumT, isNumT], none, some .num⟩ := by simp [hn_pow, lit] at hs; exact hs.symm
+  · have hs' : sig = ⟨[isNumT, isNumT], none, some .num⟩ := by simp [builtinSig, hn_pow, lit] at hs; exact hs.symm
     subst hs'; subst hn_pow
-    refine ⟨by decide, ?_⟩
-    simp [callBuiltin, isBuiltin, builtinNames, lit]
-    obtain ⟨v1, v2, t1, t2, rfl, rfl, h1, h2⟩ := two_args (hfix rfl) hz
-    have := isNumT_eq (hpred 0 t1 rfl); subst this
-    have := isNumT_eq (hpred 1 t2 rfl); subst this
-    obtain ⟨x, rfl⟩ := h1.num_inv
-    obtain ⟨y, rfl⟩ := h2.num_inv
-    exact forward_num ext Gg hx hk hgl _ (by simp [numFns]) _ _
+    exact ⟨by decide, bi_pow ops ext Gg hx hg tys vs st S hle hfix hz hpred hk hgl⟩
   by_cases hn_atan2 : name = lit "atan2"
-  · have hs' : sig = ⟨[isNumT, isNumT], none, some .num⟩ := by simp [hn_atan2, lit] at hs; exact hs.symm
+  · have hs' : sig = ⟨[isNumT, isNumT], none, some .num⟩ := by simp [builtinSig, hn_atan2, lit] at hs; exact hs.symm
     subst hs'; subst hn_atan2
-    refine ⟨by decide, ?_⟩
-    simp [callBuiltin, isBuiltin, builtinNames, lit]
-    obtain ⟨v1, v2, t1, t2, rfl, rfl, h1, h2⟩ := two_args (hfix rfl) hz
-    have := isNumT_eq (hpred 0 t1 rfl); subst this
-    have := isNumT_eq (hpred 1 t2 rfl); subst this
-    obtain ⟨x, rfl⟩ := h1.num_inv
-    obtain ⟨y, rfl⟩ := h2.num_inv
-    exact forward_num ext Gg hx hk hgl _ (by simp [numFns]) _ _
+    exact ⟨by decide, bi_atan2 ops ext Gg hx hg tys vs st S hle hfix hz hpred hk hgl⟩
   by_cases hn_upper : name = lit "upper"
-  · have hs' : sig = ⟨[isStrT], none, some .str⟩ := by simp [hn_upper, lit] at hs; exact hs.symm
+  · have hs' : sig = ⟨[isStrT], none, some .str⟩ := by simp [builtinSig, hn_upper, lit] at hs; exact hs.symm
     subst hs'; subst hn_upper
-    refine ⟨by decide, ?_⟩
-    simp [callBuiltin, isBuiltin, builtinNames, lit]
-    obtain ⟨v, t, rfl, rfl, hv⟩ := one_arg (hfix rfl) hz
-    have := isStrT_eq (hpred 0 t rfl); subst this
-    obtain ⟨x, rfl⟩ := hv.str_inv
-    exact forward_str ext Gg hx hk hgl _ (by simp [strFns]) _ _
+    exact ⟨by decide, bi_upper ops ext Gg hx hg tys vs st S hle hfix hz hpred hk hgl⟩
   by_cases hn_lower : name = lit "lower"
-  · have hs' : sig = ⟨[isStrT], none, some .str⟩ := by simp [hn_lower, lit] at hs; exact hs.symm
+  · have hs' : sig = ⟨[isStrT], none, some .str⟩ := by simp [builtinSig, hn_lower, lit] at hs; exact hs.symm
     subst hs'; subst hn_lower
-    refine ⟨by decide, ?_⟩
-    simp [callBuiltin, isBuiltin, builtinNames, lit]
-    obtain ⟨v, t, rfl, rfl, hv⟩ := one_arg (hfix rfl) hz
-    have := isStrT_eq (hpred 0 t rfl); subst this
-    obtain ⟨x, rfl⟩ := hv.str_inv
-    exact forward_str ext Gg hx hk hgl _ (by simp [strFns]) _ _
+    exact ⟨by decide, bi_lower ops ext Gg hx hg tys vs st S hle hfix hz hpred hk hgl⟩
   by_cases hn_trim : name = lit "trim"
-  · have hs' : sig = ⟨[isStrT, isStrT], none, some .str⟩ := by simp [hn_trim, lit] at hs; exact hs.symm
+  · have hs' : sig = ⟨[isStrT, isStrT], none, some .str⟩ := by simp [builtinSig, hn_trim, lit] at hs; exact hs.symm
     subst hs'; subst hn_trim
-    refine ⟨by decide, ?_⟩
-    simp [callBuiltin, isBuiltin, builtinNames, lit]
-    obtain ⟨v1, v2, t1, t2, rfl, rfl, h1, h2⟩ := two_args (hfix rfl) hz
-    have := isStrT_eq (hpred 0 t1 rfl); subst this
-    have := isStrT_eq (hpred 1 t2 rfl); subst this
-    obtain ⟨x, rfl⟩ := h1.str_inv
-    obtain ⟨y, rfl⟩ := h2.str_inv
-    exact forward_str ext Gg hx hk hgl _ (by simp [strFns]) _ _
+    exact ⟨by decide, bi_trim ops ext Gg hx hg tys vs st S hle hfix hz hpred hk hgl⟩
   by_cases hn_replace : name = lit "replace"
-  · have hs' : sig = ⟨[isStrT, isStrT, isStrT], none, some .str⟩ := by simp [hn_replace, lit] at hs; exact hs.symm
+  · have hs' : sig = ⟨[isStrT, isStrT, isStrT], none, some .str⟩ := by simp [builtinSig, hn_replace, lit] at hs; exact hs.symm
     subst hs'; subst hn_replace
-    refine ⟨by decide, ?_⟩
-    simp [callBuiltin, isBuiltin, builtinNames, lit]
-    obtain ⟨v1, v2, v3, t1, t2, t3, rfl, rfl, h1, h2, h3⟩ := three_args (hfix rfl) hz
-    have := isStrT_eq (hpred 0 t1 rfl); subst this
-    have := isStrT_eq (hpred 1 t2 rfl); subst this
-    have := isStrT_eq (hpred 2 t3 rfl); subst this
-    obtain ⟨x, rfl⟩ := h1.str_inv
-    obtain ⟨y, rfl⟩ := h2.str_inv
-    obtain ⟨z, rfl⟩ := h3.str_inv
-    exact forward_str ext Gg hx hk hgl _ (by simp [strFns]) _ _
+    exact ⟨by decide, bi_replace ops ext Gg hx hg tys vs st S hle hfix hz hpred hk hgl⟩
   by_cases hn_str2num : name = lit "str2num"
-  · have hs' : sig = ⟨[isStrT], none, some .num⟩ := by simp [hn_str2num, lit] at hs; exact hs.symm
+  · have hs' : sig = ⟨[isStrT], none, some .num⟩ := by simp [builtinSig, hn_str2num, lit] at hs; exact hs.symm
     subst hs'; subst hn_str2num
-    refine ⟨by decide, ?_⟩
-    simp [callBuiltin, isBuiltin, builtinNames, lit]
-    obtain ⟨v, t, rfl, rfl, hv⟩ := one_arg (hfix rfl) hz
-    have := isStrT_eq (hpred 0 t rfl); subst this
-    obtain ⟨x, rfl⟩ := hv.str_inv
-    simp only [callExt]
-    cases hc : ext.call "parsefloat" [XArg.str x] with
-    | none =>
-      exact ⟨S, Grows.refl S, hk,
-        setGlobalErr_ok Gg hg (st := { st with misses := ("parsefloat", [XArg.str x]) :: st.misses, stopped := true }) hgl _ _, rfl,
-        fun t ht => by cases ht; exact .num _⟩
-    | some r =>
-      obtain ⟨n, b, rfl⟩ := hx.2.2 _ _ hc
-      cases b with
-      | true => exact ⟨S, Grows.refl S, hk, setGlobalErr_ok Gg hg hgl _ _, rfl, fun t ht => by cases ht; exact .num _⟩
-      | false =>
-        simp only
-        cases hq : ext.call "quote" [XArg.str x] with
-        | some q => exact ⟨S, Grows.refl S, hk, setGlobalErr_ok Gg hg hgl _ _, rfl, fun t ht => by cases ht; exact .num _⟩
-        | none =>
-          exact ⟨S, Grows.refl S, hk,
-            setGlobalErr_ok Gg hg (st := { st with misses := ("quote", [XArg.str x]) :: st.misses, stopped := true }) hgl _ _, rfl,
-            fun t ht => by cases ht; exact .num _⟩
-  -- none of the names: not in the table
-  simp only [hn_abs, hn_floor, hn_ceil, hn_round, hn_log, hn_sqrt, hn_sin, hn_cos, hn_min, hn_max, hn_pow, hn_atan2, hn_upper, hn_lower,
-    hn_trim, hn_replace, hn_str2num, or_self, if_false] at hs
-  cases hs
+    exact ⟨by decide, bi_str2num ops ext Gg hx hg tys vs st S hle hfix hz hpred hk hgl⟩
+  by_cases hn_move : name = lit "move"
+  · have hs' : sig = ⟨[isNumT, isNumT], none, none⟩ := by simp [builtinSig, hn_move, lit] at hs; exact hs.symm
+    subst hs'; subst hn_move
+    exact ⟨by decide, bi_move ops ext Gg hx hg tys vs st S hle hfix hz hpred hk hgl⟩
+  by_cases hn_line : name = lit "line"
+  · have hs' : sig = ⟨[isNumT, isNumT], none, none⟩ := by simp [builtinSig, hn_line, lit] at hs; exact hs.symm
+    subst hs'; subst hn_line
+    exact ⟨by decide, bi_line ops ext Gg hx hg tys vs st S hle hfix hz hpred hk hgl⟩
+  by_cases hn_rect : name = lit "rect"
+  · have hs' : sig = ⟨[isNumT, isNumT], none, none⟩ := by simp [builtinSig, hn_rect, lit] at hs; exact hs.symm
+    subst hs'; subst hn_rect
+    exact ⟨by decide, bi_rect ops ext Gg hx hg tys vs st S hle hfix hz hpred hk hgl⟩
+  by_cases hn_circle : name = lit "circle"
+  · have hs' : sig = ⟨[isNumT], none, none⟩ := by simp [builtinSig, hn_circle, lit] at hs; exact hs.symm
+    subst hs'; subst hn_circle
+    exact ⟨by decide, bi_circle ops ext Gg hx hg tys vs st S hle hfix hz hpred hk hgl⟩
+  by_cases hn_width : name = lit "width"
+  · have hs' : sig = ⟨[isNumT], none, none⟩ := by simp [builtinSig, hn_width, lit] at hs; exact hs.symm
+    subst hs'; subst hn_width
+    exact ⟨by decide, bi_width ops ext Gg hx hg tys vs st S hle hfix hz hpred hk hgl⟩
+  by_cases hn_color : name = lit "color"
+  · have hs' : sig = ⟨[isStrT], none, none⟩ := by simp [builtinSig, hn_color, lit] at hs; exact hs.symm
+    subst hs'; subst hn_color
+    exact ⟨by decide, bi_color ops ext Gg hx hg tys vs st S hle hfix hz hpred hk hgl⟩
+  by_cases hn_colour : name = lit "colour"
+  · have hs' : sig = ⟨[isStrT], none, none⟩ := by simp [builtinSig, hn_colour, lit] at hs; exact hs.symm
+    subst hs'; subst hn_colour
+    exact ⟨by decide, bi_colour ops ext Gg hx hg tys vs st S hle hfix hz hpred hk hgl⟩
+  by_cases hn_stroke : name = lit "stroke"
+  · have hs' : sig = ⟨[isStrT], none, none⟩ := by simp [builtinSig, hn_stroke, lit] at hs; exact hs.symm
+    subst hs'; subst hn_stroke
+    exact ⟨by decide, bi_stroke ops ext Gg hx hg tys vs st S hle hfix hz hpred hk hgl⟩
+  by_cases hn_fill : name = lit "fill"
+  · have hs' : sig = ⟨[isStrT], none, none⟩ := by simp [builtinSig, hn_fill, lit] at hs; exact hs.symm
+    subst hs'; subst hn_fill
+    exact ⟨by decide, bi_fill ops ext Gg hx hg tys vs st S hle hfix hz hpred hk hgl⟩
+  by_cases hn_linecap : name = lit "linecap"
+  · have hs' : sig = ⟨[isStrT], none, none⟩ := by simp [builtinSig, hn_linecap, lit] at hs; exact hs.symm
+    subst hs'; subst hn_linecap
+    exact ⟨by decide, bi_linecap ops ext Gg hx hg tys vs st S hle hfix hz hpred hk hgl⟩
+  by_cases hn_text : name = lit "text"
+  · have hs' : sig = ⟨[isStrT], none, none⟩ := by simp [builtinSig, hn_text, lit] at hs; exact hs.symm
+    subst hs'; subst hn_text
+    exact ⟨by decide, bi_text ops ext Gg hx hg tys vs st S hle hfix hz hpred hk hgl⟩
+  by_cases hn_clear : name = lit "clear"
+  · have hs' : sig = ⟨[], some isStrT, none⟩ := by simp [builtinSig, hn_clear, lit] at hs; exact hs.symm
+    subst hs'; subst hn_clear
+    exact ⟨by decide, bi_clear ops ext Gg hx hg tys vs st S hle hfix hz hpred hk hgl⟩
+  by_cases hn_grid : name = lit "grid"
+  · have hs' : sig = ⟨[], none, none⟩ := by simp [builtinSig, hn_grid, lit] at hs; exact hs.symm
+    subst hs'; subst hn_grid
+    exact ⟨by decide, bi_grid ops ext Gg hx hg tys vs st S hle hfix hz hpred hk hgl⟩
+  by_cases hn_gridn : name = lit "gridn"
+  · have hs' : sig = ⟨[isNumT, isStrT], none, none⟩ := by simp [builtinSig, hn_gridn, lit] at hs; exact hs.symm
+    subst hs'; subst hn_gridn
+    exact ⟨by decide, bi_gridn ops ext Gg hx hg tys vs st S hle hfix hz hpred hk hgl⟩
+  by_cases hn_dash : name = lit "dash"
+  · have hs' : sig = ⟨[], some isNumT, none⟩ := by simp [builtinSig, hn_dash, lit] at hs; exact hs.symm
+    subst hs'; subst hn_dash
+    exact ⟨by decide, bi_dash ops ext Gg hx hg tys vs st S hle hfix hz hpred hk hgl⟩
+  by_cases hn_ellipse : name = lit "ellipse"
+  · have hs' : sig = ⟨[], some isNumT, none⟩ := by simp [builtinSig, hn_ellipse, lit] at hs; exact hs.symm
+    subst hs'; subst hn_ellipse
+    exact ⟨by decide, bi_ellipse ops ext Gg hx hg tys vs st S hle hfix hz hpred hk hgl⟩
+  by_cases hn_hsl : name = lit "hsl"
+  · have hs' : sig = ⟨[], some isNumT, some .str⟩ := by simp [builtinSig, hn_hsl, lit] at hs; exact hs.symm
+    subst hs'; subst hn_hsl
+    exact ⟨by decide, bi_hsl ops ext Gg hx hg tys vs st S hle hfix hz hpred hk hgl⟩
+  by_cases hn_printf : name = lit "printf"
+  · have hs' : sig = ⟨[isAnyT], some (fun _ => true), none⟩ := by simp [builtinSig, hn_printf, lit] at hs; exact hs.symm
+    subst hs'; subst hn_printf
+    exact ⟨by decide, bi_printf ops ext Gg hx hg tys vs st S hle hfix hz hpred hk hgl⟩
+  by_cases hn_sprintf : name = lit "sprintf"
+  · have hs' : sig = ⟨[isAnyT], some (fun _ => true), some .str⟩ := by simp [builtinSig, hn_sprintf, lit] at hs; exact hs.symm
+    subst hs'; subst hn_sprintf
+    exact ⟨by decide, bi_sprintf ops ext Gg hx hg tys vs st S hle hfix hz hpred hk hgl⟩
+  by_cases hn_repr : name = lit "repr"
+  · have hs' : sig = ⟨[], some (fun _ => true), some .str⟩ := by simp [builtinSig, hn_repr, lit] at hs; exact hs.symm
+    subst hs'; subst hn_repr
+    exact ⟨by decide, bi_repr ops ext Gg hx hg tys vs st S hle hfix hz hpred hk hgl⟩
+  by_cases hn_split : name = lit "split"
+  · have hs' : sig = ⟨[isStrT, isStrT], none, some (.arr .str)⟩ := by simp [builtinSig, hn_split, lit] at hs; exact hs.symm
+    subst hs'; subst hn_split
+    exact ⟨by decide, bi_split ops ext Gg hx hg tys vs st S hle hfix hz hpred hk hgl⟩
+  by_cases hn_rand : name = lit "rand"
+  · have hs' : sig = ⟨[isNumT], none, some .num⟩ := by simp [builtinSig, hn_rand, lit] at hs; exact hs.symm
+    subst hs'; subst hn_rand
+    exact ⟨by decide, bi_rand ops ext Gg hx hg tys vs st S hle hfix hz hpred hk hgl⟩
+  by_cases hn_rand1 : name = lit "rand1"
+  · have hs' : sig = ⟨[], none, some .num⟩ := by simp [builtinSig, hn_rand1, lit] at hs; exact hs.symm
+    subst hs'; subst hn_rand1
+    exact ⟨by decide, bi_rand1 ops ext Gg hx hg tys vs st S hle hfix hz hpred hk hgl⟩
+  exfalso
+  simp [builtinSig, hn_len, hn_typeof, hn_has, hn_del, hn_str2bool, hn_sprint, hn_join, hn_startswith, hn_endswith, hn_index, hn_exit, hn_panic, hn_sleep, hn_cls, hn_read, hn_abs, hn_floor, hn_ceil, hn_round, hn_log, hn_sqrt, hn_sin, hn_cos, hn_min, hn_max, hn_pow, hn_atan2, hn_upper, hn_lower, hn_trim, hn_replace, hn_str2num, hn_move, hn_line, hn_rect, hn_circle, hn_width, hn_color, hn_colour, hn_stroke, hn_fill, hn_linecap, hn_text, hn_clear, hn_grid, hn_gridn, hn_dash, hn_ellipse, hn_hsl, hn_printf, hn_sprintf, hn_repr, hn_split, hn_rand, hn_rand1] at hs
 
 end EvyV.TS
